@@ -12,2364 +12,1130 @@ Definition show_fres (r : fres) : string :=
   end.
 Definition check (rs : list rune) : string := digest (show_fres (format_res rs)).
 Definition full (rs : list rune) : string := show_fres (format_res rs).
-Eval vm_compute in ("<<<M4489>>>" ++ check (runes_of_ascii "root packet rootA {
-    @calculatedFrom("""")
-    match packetx as x_y_z {
-        // `tick` ""quote"" 'q'
-        """ ++ [28040; 24687]%N ++ runes_of_ascii """ : crc,
-        ""a	b"" : i8i8,
-        ""it's"" : msg_type,
-        10 : string_,
-        0123456789 : int,
-    },
-    zchar[0123456789] _x `say ""hi""`,
-    @lengthOf(lengthOf)
-    repeat chars {
-        repeat i16 u,
-    },
-    i16 u @lengthOf(Pad) `say ""hi""`,
-    string u8x @calculatedFrom(""\n"") `" ++ [233]%N ++ runes_of_ascii "`,
-    MetaDataX `" ++ [233]%N ++ runes_of_ascii "`,
-    char[] Header @lengthOf(Foo) `u8 x,`,//
-}
-
-// c
-// " ++ [128512]%N ++ runes_of_ascii " emoji
-packet repeatCount {
-    @tag(7)
-    char[] x_y_z `it's`,
-    @calculatedFrom(""`tick`"")
-    repeat o,
-    @lengthOf(pack)
-    @lengthOf(u128)
-    @lengthOf(stringy)
-    match zchar as MetaDataX {
-        [""// no comment"", 0] : options1,
-        [""a	b"", ""`tick`"", """ ++ [233]%N ++ runes_of_ascii "t" ++ [233]%N ++ runes_of_ascii """, 7, 0123456789] : string_,
-        ""a\""b"" : len,
-        ""a\\"" : MetaDataX,
-    },
-    u8x {
-        repeat chars MetaDataX `two words`,
-        repeat Header len ``,
-        pack {
-            u16 asx @calculatedFrom(""`tick`"") `line1
-            line2`,
-            f64 string_,
-            float32 zchar @lengthOf(i8i8),
-            As @lengthOf(_x) `u8 x,`,
-        },
-        int32 roots `doc`,
-    },
-}
-
-packet As {
-    @lengthOf(leftPad)
-    @calculatedFrom("""")
-    x_y_z @lengthOf(i8i8) `" ++ [233]%N ++ runes_of_ascii "`,
-    repeat float32 Z9_,// `tick` ""quote"" 'q'
-    pack,
-    msg_type,// `tick` ""quote"" 'q'
-    @rightPad('0')
-    // a // b
-    // @lengthOf(
-    u16 crc,
-    @lengthOf(chars)
-    repeat x `it's`,
-}
-
-packet body {
-    @calculatedFrom(""" ++ [28040; 24687]%N ++ runes_of_ascii """)
-    T @lengthOf(u8x),
-    @tag(3)
-    // packet A { u8 x, }
-    u32 u @lengthOf(msg_type),
-    @calculatedFrom(""" ++ [128512]%N ++ runes_of_ascii """)
-    repeat char[10] A,
-    x {
-        string o,
-        match Pad as rootA {
-            ""packet"" : matchKey,
-        },
-        u64 x_y_z,
-        char[] leftPad @lengthOf(float),/// triple
-    },
-    repeat uint8x falsey `" ++ [233]%N ++ runes_of_ascii "`,
-    @lengthOf(Z9_)
-    u8 f32a,
-    @tag(0123456789)
-    // @lengthOf(
-    // `tick` ""quote"" 'q'
-    u8 matchKey ``,
-    Pad trueish `say ""hi""`,
-}")).
-Eval vm_compute in ("<<<M1022>>>" ++ check (runes_of_ascii "packet T
-{
-repeat	zchar[007 ] x_y_z  ,repeat Logon{ repeat	f32a `// not a comment` , string uint8x `crlf
-line`
-, }//	t
-,	int64 len `// not a comment` ,match
-repeatCount as
-    // " ++ [27880; 37322]%N ++ runes_of_ascii "
-    x_y_z
-{ 00
-    :
-    packetx , [ ""CRC32""
-, """ ++ [128512]%N ++ runes_of_ascii """ ] : metadata
-, 00// `tick` ""quote"" 'q'
-: // trailing space 
-metadata
-    , }	, repeat
-msg_type{ falsey// c
-{ repeat len { match float as stringy
-{
-    // c
-    [
-//
-// " ++ [128512]%N ++ runes_of_ascii " emoji
-007 ,	""packet""  ,
-007
-, ""\n"",""abc""
-    ,1 , 4294967296 ]: // " ++ [128512]%N ++ runes_of_ascii " emoji
-matchKey ,
-42 :f32a// packet A { u8 x, }
-,
-[ 10
-// @lengthOf(
-// c
-,	""a\\""	]:a1
-//
-// " ++ [128512]%N ++ runes_of_ascii " emoji
-,
-    65535 : tag// trailing space 
-, // `tick` ""quote"" 'q'
-} , } // " ++ [27880; 37322]%N ++ runes_of_ascii "
-, } ,u64 _x`two words` //x
-, pack  , } , repeat	As//
-{
-repeat string
-    pack , uint8// c
-leftPad
-@lengthOf( As )
-, string options1
-@calculatedFrom( ""// no comment"" /// triple
-) `" ++ [28040; 24687; 31867; 22411]%N ++ runes_of_ascii "`
-    ,  u8 leftPad
-    @lengthOf( options1) ,}
-    // @lengthOf(
-    , }//
-packet float
-    { @tag( 42
-) //
-repeat int64 float
-    `a\` , @calculatedFrom(	""// no comment"" )	repeat i64_
-    packetx  , match lengthOf as // a // b
-falsey // @lengthOf(
-{ [42 , ""\" ++ [233]%N ++ runes_of_ascii """,10 , 10
-    ,
-007 , ""abc"" , 1	, 7] : metadata //	t
-, }	, repeat	int ,
-    repeatCount
-, zchar[ 255
-] x
-    @lengthOf(A
-// c
-// @lengthOf(
-)	, @leftPad (
-' '	) @lengthOf(
-    o
-)
-    @rightPad
-    (
-'\x00'
-)
-// a // b
-// @lengthOf(
-repeat float64 leftPad
-    , @leftPad (  '0') match	i8i8 as
-    // @lengthOf(
-    charz
-{ """ ++ [28040; 24687]%N ++ runes_of_ascii """ :roots , } , @calculatedFrom(
-/// triple
-// packet A { u8 x, }
-""abc"" )
-    repeat zchar[
-    00 ] matchKey , // packet A { u8 x, }
-uint16
-    /// triple
-    string_`doc`  , }
-//x
-")).
-Eval vm_compute in ("<<<M189>>>" ++ check (runes_of_ascii "packet i64_ { match
-    BodyLength as u8x {
-[ 0123456789 ]: leftPad ""{,}"" :	lengthOf	,
-007 :	A, [  ""a\""b"" ] :float , //x
-} , @calculatedFrom( // `tick` ""quote"" 'q'
-""" ++ [233]%N ++ runes_of_ascii "t" ++ [233]%N ++ runes_of_ascii """ )// a // b
-body
-u8x
-    , packetx`say ""hi""`, // @lengthOf(
-zchar[
-    42 ]MetaDataX `line1
-line2`
-    ,
-    f32 // @lengthOf(
-matchKey, roots{
-    // " ++ [27880; 37322]%N ++ runes_of_ascii "
-    u128 @lengthOf( T ) , char[
-// " ++ [128512]%N ++ runes_of_ascii " emoji
-// packet A { u8 x, }
-42
-    ]	x_y_z	@calculatedFrom( """" ) ,repeat float64 stringy// " ++ [128512]%N ++ runes_of_ascii " emoji
-`` ,
-    }
-,u16 // @lengthOf(
-metadata
-    `tab	here` ,@rightPad	( '0'
-    // " ++ [128512]%N ++ runes_of_ascii " emoji
-    )
-@tag( 7 )
-// " ++ [27880; 37322]%N ++ runes_of_ascii "
-// " ++ [27880; 37322]%N ++ runes_of_ascii "
-repeat uint16 // @lengthOf(
-x_y_z `say ""hi""`, repeat
-    roots{ // a // b
-Packet {float{ repeat asx , asx
-Foo
-    , }
-,
-    }	,} ,@tag( 42 )//x
-u `line1
-line2` , // `tick` ""quote"" 'q'
-}  packet int { } options {
-    // `tick` ""quote"" 'q'
-    Logon
-    = ""{,}"" ; } packet	As{// packet A { u8 x, }
-@calculatedFrom( // @lengthOf(
-"""" ) @rightPad ( '\x00'
-// " ++ [128512]%N ++ runes_of_ascii " emoji
-//	t
-) @leftPad (
-'0' ) repeat Logon
-f32a	, @lengthOf(
-// a // b
-// a // b
-rootA ) @tag(42 )
-    @lengthOf(
-// " ++ [128512]%N ++ runes_of_ascii " emoji
-//
-u
-//	t
-// a // b
-)repeat o u8x `u8 x,` , @tag( 7) zchar[
-    //x
-    42] asx @lengthOf(
-    trueish ) , @lengthOf( trueish ) int16
-stringy
-,
-zchar f32a
-    `two words` , string u8x@calculatedFrom( ""\n""
-    )  , _x `
-` , @lengthOf( i8i8  ) i64_@lengthOf(
-    uint8x )
-    , uint32 rootA `it's` , }
-")).
-Eval vm_compute in ("<<<M4385>>>" ++ check (runes_of_ascii "
-
-  root 
-packet o 
-{ @leftPad 
-        // " ++ [128512]%N ++ runes_of_ascii " emoji
-//x
-    ( 
-'0'
-
-)
-	u16
-    Pad ,
-}
-	packet  string_
-{match
-
-    o	as 
-// c
-	  chars{ [3
-	,
-""" ++ [128512]%N ++ runes_of_ascii """	// trailing space 
-	] 
-:  _x 
-,}
-,char[]
-rootA @lengthOf( 
-f32a	)
-    `it's` ,
-    @leftPad
-( 
-    // " ++ [128512]%N ++ runes_of_ascii " emoji
-  // a // b
-	) // packet A { u8 x, }
-
-repeat metadata  //x
-    ,@calculatedFrom( ""it's""
-	// trailing space 
-    // `tick` ""quote"" 'q'
-
-)
-zchar[ 
-      // trailing space 
-	3
-
-    ]
-i8i8  @lengthOf(
-options1
-)	`line1
-line2`,
-
-    }root  packet 
-metadata	{	match
-
-    MetaDataX
-as falsey{
-42
-:
-
-    Header
-    ""1"":	Z9_
-    ,
-    }
-,
-
-As
-    {
-    uint8
-// `tick` ""quote"" 'q'
-  	// a // b
-
-pack
-`" ++ [28040; 24687; 31867; 22411]%N ++ runes_of_ascii "`
-,	char[
-
-    // " ++ [27880; 37322]%N ++ runes_of_ascii "
-
-4294967296	]
-
-    stringy@calculatedFrom(	""`tick`""
-)
-    ,
-
-    i16  //x
-  rootA  @lengthOf(
-Foo
-	)	`u8 x,`//
-  ,
-
-    //
-
-  //	t
-  } ,
-
-    @leftPad 
-(
-	) match  charz
-
-    as
-f32a
-{ [ ""\n"" 
-,0123456789
-    ]
-
-: x_y_z 
-, """ ++ [28040; 24687]%N ++ runes_of_ascii """
-
-    //
-	:string_}
-,	@lengthOf(Packet )
-match
-Packet
-as
-asx	{	[  // a // b
-
-	42 
-,""\" ++ [233]%N ++ runes_of_ascii """
-
-    ] :  lengthOf
-    ,
-
-65535
-    : falsey
-    }, body
-leftPad
-,  char[ 0]
-
-    o	@calculatedFrom(
-    // " ++ [27880; 37322]%N ++ runes_of_ascii "
-
-""a\""b"")
-    `it's` ,
-
-@rightPad
-( ' ' )	char[ 65535	/// triple
-  ] a1 `crlf
-line` ,  T
-@lengthOf(
-pack)`" ++ [28040; 24687; 31867; 22411]%N ++ runes_of_ascii "`, 
-}
-
-")).
-Eval vm_compute in ("<<<M204>>>" ++ check (runes_of_ascii "packet i64_ {
-    @leftPad( ) @tag(	4294967296
-) repeat	string Logon `{ , }`
-    ,@lengthOf(
-    float )u16
-    //x
-    matchKey @lengthOf(
-body
-) , repeat
-    /// triple
-    char[  4294967296 ]
-tag , @lengthOf(asx )
-repeat
-    trueish , repeat
-    lengthOf
-len
-,// packet A { u8 x, }
-match asx
-    as
-    crc {
-    [ // a // b
-""" ++ [28040; 24687]%N ++ runes_of_ascii """
-// trailing space 
-// c
-, ""abc"" ] :
-roots
-, },	match
-    uint8x as
-repeatCount
-    { [
-0123456789
-    ]:
-    /// triple
-    Foo ,""a\""b""
-    : Packet
-    42  :
-    stringy , [ // `tick` ""quote"" 'q'
-0123456789 , 007
-] : f32a , //x
-42: x }
-    // @lengthOf(
-    ,
-@lengthOf( msg_type )
-uint8x , repeat metadata// " ++ [27880; 37322]%N ++ runes_of_ascii "
-,} MetaData float { char[ 42
-] Logon
-`a\` , stringy packetx , int32 pack,rootA
-x
-    , Logon Foo , u16 A
-//	t
-//x
-, } //x
-packet
-    //	t
-    Header{  @calculatedFrom(
-    ""1"" ) u
-,@tag( 65535
-// a // b
-// trailing space 
-)
-pack { string trueish `" ++ [28040; 24687; 31867; 22411]%N ++ runes_of_ascii "`
-    , match
-stringy
-    as tag
-{  ""a\\"" : float
-    // `tick` ""quote"" 'q'
-    ,
-    ""abc"" :Z9_ ,007 :	metadata, // c
-[ 10 ] :matchKey // " ++ [27880; 37322]%N ++ runes_of_ascii "
-, ""a	b"" : _x 7// " ++ [128512]%N ++ runes_of_ascii " emoji
-:Pad } ,  repeat body
-, f32 int , } ,  MetaDataX u128 `doc` , }
-options {}
-")).
-Eval vm_compute in ("<<<M4356>>>" ++ check (runes_of_ascii "MetaData crc {
-    Z9_ metadata `u8 x,`,
-}
-
-packet matchKey {
-    leftPad,
-    string x,
-    // " ++ [27880; 37322]%N ++ runes_of_ascii "
-}
-
-packet x {
-    match msg_type as MetaDataX {
-        // @lengthOf(
-        00 : roots,
-    },
-    char[255] falsey `" ++ [28040; 24687; 31867; 22411]%N ++ runes_of_ascii "`,
-    @lengthOf(Logon)
-    @tag(42)
-    @lengthOf(Foo)
-    repeat char[1] u,
-    // packet A { u8 x, }
-    //	t
-    i8 chars @calculatedFrom(""a\""b""),
-    @calculatedFrom(""" ++ [128512]%N ++ runes_of_ascii """)
-    @calculatedFrom(""`tick`"")
-    f64 Logon,
-    @lengthOf(calculatedFrom)
-    //
-    repeatCount {
-        repeat Packet `two words`,
-        match i64_ as charz {
-            ""a\\"" : int,
-            [""\" ++ [233]%N ++ runes_of_ascii """, 0123456789, """ ++ [28040; 24687]%N ++ runes_of_ascii """] : Pad,
-            1 : As,
-            ""CRC32"" : Header,
-        },
-        char[007] tag `doc`,
-        repeat As `" ++ [233]%N ++ runes_of_ascii "`,// c
-    },
-    MetaDataX @calculatedFrom("""") `line1
-    line2`,// c
-}
-
-options {
-    _x = false
-    As = zchar[65535]
-    BodyLength = int64
-    o = false;
-    calculatedFrom = '0';
-}
-
-root packet Packet {
-    // @lengthOf(
-    falsey Packet,
-    @lengthOf(BodyLength)
-    @lengthOf(uint8x)
-    @rightPad()
-    string float `// not a comment`,
-}")).
-Eval vm_compute in ("<<<M4113>>>" ++ check (runes_of_ascii "packet BodyLength {
-    char[3] i64_ @calculatedFrom(""`tick`"") `line1
-    line2`,
-    @leftPad()
-    x `two words`,
-    zchar[0123456789] pack @calculatedFrom(""a\""b"") `crlf
-    line`,
-    calculatedFrom {
-        char[255] MetaDataX @calculatedFrom(""packet"") `doc`,
-        zchar[007] leftPad `crlf
-        line`,
-        uint8x @calculatedFrom(""a\""b""),
-        //
-        //
-        MetaDataX _x,
-    },
-    @calculatedFrom(""packet"")
-    zchar[7] repeatCount `" ++ [28040; 24687; 31867; 22411]%N ++ runes_of_ascii "`,
-    @lengthOf(Foo)
-    // " ++ [128512]%N ++ runes_of_ascii " emoji
-    int64 A @lengthOf(charz) ``,
-    @tag(7)
-    packetx @calculatedFrom("""") `a\`,
-}
-
-root packet u128 {
-}
-
-packet Logon {
-    T {
-        T @lengthOf(u8x) `tab	here`,
-        As `u8 x,`,
-    },
-    int64 T,
-    i64 tag @lengthOf(i64_),
-    @lengthOf(metadata)
-    repeat i8 rootA,
-    int64 Foo @lengthOf(a1),
-    chars {
-        string packetx @lengthOf(chars) `" ++ [233]%N ++ runes_of_ascii "`,
-        a1 @calculatedFrom(""a\""b""),
-        char[] crc @lengthOf(i8i8),
-    },
-}
-
-options {
-    matchKey = ' '
-    asx = true;
-    MetaDataX = ""it's"";
-}")).
-Eval vm_compute in ("<<<M3705>>>" ++ check (runes_of_ascii "packet a1 {
-    chars {
-        len {
-            Logon len,
-            string string_,
-            u8x @calculatedFrom(""a\\""),
-            repeat float {
-                body int `" ++ [233]%N ++ runes_of_ascii "`,
-            },
-        },
-        repeat As {
-            repeat i64_ f32a `{ , }`,
-            A @calculatedFrom(""\" ++ [233]%N ++ runes_of_ascii """),
-            int64 float,
-        },
-        match x as chars {
-            [
-                """ ++ [128512]%N ++ runes_of_ascii """, 007, ""x y"", 00, ""x y"",
-                10
-            ] : string_,
-            10 : float,
-            4294967296 : x_y_z,
-            [
-                """ ++ [233]%N ++ runes_of_ascii "t" ++ [233]%N ++ runes_of_ascii """, 10, 42, """ ++ [28040; 24687]%N ++ runes_of_ascii """, 0123456789,
-                42, 10
-            ] : T,
-            00 : leftPad,
-        },
-        crc @lengthOf(u128),
-    },
-    char[] packetx @calculatedFrom(""abc"") `line1
-        line2`,
-    int32 repeatCount @lengthOf(Foo) `it's`,
-    match Packet as string_ {
-        42 : f32a,
-        255 : MetaDataX,
-        1 : i8i8,
-        """" : a1,
-        //	t
-    },
-    _x @lengthOf(chars),
-}")).
-Eval vm_compute in ("<<<M1263>>>" ++ check (runes_of_ascii "root
-    packet  matchKey
-    { match uint8x as x_y_z { 1
-    : // @lengthOf(
-falsey // a // b
-, } ,}
-packet
-    // " ++ [27880; 37322]%N ++ runes_of_ascii "
-    MetaDataX  {
-    /// triple
-    float @calculatedFrom(""a\\"" ) `// not a comment`, repeat stringy {  match repeatCount as
-a1 {	[ ""// no comment"" ] : metadata , //	t
-[ 4294967296 ,""" ++ [233]%N ++ runes_of_ascii "t" ++ [233]%N ++ runes_of_ascii """ ] : len
-    [""a\\""
-    , 4294967296 ,""packet"" , """ ++ [233]%N ++ runes_of_ascii "t" ++ [233]%N ++ runes_of_ascii """ ,
-    10 , 0 // " ++ [27880; 37322]%N ++ runes_of_ascii "
-] :charz
-    , 00 :  i64_ , [
-7 ] :
-tag, 00
-//	t
-//	t
-: falsey }
-    , }
-    , roots @calculatedFrom( ""1"" ) `
-`
-    ,msg_type  @lengthOf(
-    stringy
-) `a\`  , int MetaDataX `doc` , @calculatedFrom( // trailing space 
-""" ++ [128512]%N ++ runes_of_ascii """ ) u64
-int `say ""hi""`
-    , }packet //x
-rootA{
-asx // c
-@lengthOf( Foo) `a\`, @leftPad(
-' ' )
-string// c
-Z9_
-,
-    crc
-    //x
-    @lengthOf(
-//	t
-// a // b
-leftPad
-)	`doc` ,  repeat calculatedFrom
-    // packet A { u8 x, }
-    u128`{ , }` , //x
+Eval vm_compute in ("<<<M226>>>" ++ check (runes_of_ascii "root packet Foo { @tag(00	)
+char[] _x
 @calculatedFrom(
-""packet""
-) @calculatedFrom(""\" ++ [233]%N ++ runes_of_ascii """	)i16 roots `doc` , }")).
-Eval vm_compute in ("<<<M1360>>>" ++ check (runes_of_ascii "root packet lengthOf // @lengthOf(
-{ } //x
-packet _x{//
-@calculatedFrom(//x
-""a	b"" )
-@tag( 65535// packet A { u8 x, }
-)
-    char[ 65535 ]
-// c
-// `tick` ""quote"" 'q'
-matchKey , }packet leftPad {
-u16
-leftPad	, @tag( 0123456789 )
-// " ++ [128512]%N ++ runes_of_ascii " emoji
+    // trailing space 
+    ""{,}"" ) ,@rightPad	( '0' )f32 Pad@calculatedFrom( ""abc""
 // @lengthOf(
-char[ 1 ] f32a @lengthOf( options1
-) , string_ BodyLength , Foo
-`" ++ [28040; 24687; 31867; 22411]%N ++ runes_of_ascii "`
-    //
-    ,@lengthOf(
-u128 ) i32 trueish @lengthOf( chars
-)
-`it's` ,
-    u8x	u8x  `{ , }` , match Foo
-    as leftPad
-{ // c
-0123456789: calculatedFrom}, @leftPad ('0' // c
-)int32	rootA	`crlf
-line`
-,	match BodyLength as
-pack
-{ [ 10
-    ] : stringy,
-10 :stringy 1 :u , } , match zchar as calculatedFrom
-{ """ ++ [128512]%N ++ runes_of_ascii """ :	len , }
-//x
-// trailing space 
-, } MetaData // packet A { u8 x, }
-Z9_
-{Pad As `line1
-line2`
-    // a // b
-    , Z9_ zchar , int8 repeatCount , i64_ trueish,
-A uint8x
-,// trailing space 
-leftPad Logon`two words`, } options { } 	 ")).
-Eval vm_compute in ("<<<M3618>>>" ++ check (runes_of_ascii "
-
-  options
-	    // trailing space 
-    	// " ++ [27880; 37322]%N ++ runes_of_ascii "
-	{
-
-    Foo
-=
-""it's"" lengthOf = int8
-
-    falsey  /// triple
-      =	7
-
-    ;
-
-a1
-=
-false ;
-    } MetaData
-	repeatCount
-    //x
-  //x
-
-{ T
-
-repeatCount, u8x
-msg_type `// not a comment`,
-    repeatCount
-
-T
-
-,
-
-    }
-
-    packet	repeatCount  {
-
-@tag(  007
-    ) i64_  As
-	,
-	} root 
-packet 
-packetx {
-    string
-	//	t
-    	// " ++ [128512]%N ++ runes_of_ascii " emoji
-    T@calculatedFrom(  ""{,}""	//
-		)
-
-,	repeat 
-zchar[ 
-4294967296]  x  ,  @tag(
-42 )
-@lengthOf(
-lengthOf
-)/// triple
-      @calculatedFrom(
-""`tick`"" ) repeat u16 u128
-    `say ""hi""`// trailing space 
-	,// trailing space 
-	@rightPad
-( )@tag(255 )
-    repeat	uint8x 
-Logon  
-  // packet A { u8 x, }
-
-,  repeat zchar[	007
-]  Logon  `a\`
-,
-    @rightPad (
-// `tick` ""quote"" 'q'
-  '0')// @lengthOf(
-
-	string falsey
-,
-    } ")).
-Eval vm_compute in ("<<<M1187>>>" ++ check (runes_of_ascii "packet len {	@tag( 007 ) @lengthOf(  calculatedFrom
-    // @lengthOf(
-    )
-@rightPad
-( '0' )
-roots
-asx `
-` ,@calculatedFrom(
-    ""\" ++ [233]%N ++ runes_of_ascii """ )
-    //
-    repeatCount @lengthOf(matchKey
-) `it's` , @lengthOf(
-int ) match
-    repeatCount as rootA {  ""packet""
-// `tick` ""quote"" 'q'
 // " ++ [27880; 37322]%N ++ runes_of_ascii "
-: x_y_z
-[ ""1""
-    // `tick` ""quote"" 'q'
-    ,
-65535 , 3, ""{,}"" ,//x
-"""" ]
-:
-    Logon } ,repeat options1 ,
-stringy@lengthOf(
-/// triple
-//	t
-Header )
-`
-` ,
-    repeat
-zchar[ 7 ]msg_type `tab	here`
-,/// triple
-zchar[ 10] u8x, Pad
-    {u8x
-@calculatedFrom(	""packet"" )  ,},  i8i8 {
-repeat uint8x lengthOf ,
-    match Z9_
-    as A
-    // " ++ [128512]%N ++ runes_of_ascii " emoji
-    { 0	:trueish , } ,
-} , match
-u128 as lengthOf //	t
-{
-    3	: //	t
-Pad}
-// c
-//	t
-, }
-packet calculatedFrom
-{
-zchar[ // `tick` ""quote"" 'q'
-10
-]repeatCount
-    ,}")).
-Eval vm_compute in ("<<<M4107>>>" ++ check (runes_of_ascii "options {
-    LittleEndian = false;
-    StringPrefixLenType = u16;
-    ArrayPrefixLenType = u32;
-}
-
-packet Order {
-    uint8 x,
-    repeat string venue,
-}
-
-packet Heartbeat {
-    i64 count,
-    zchar[1] Qty,
-    repeat InX29 {
-        InSeqno26 {
-            int64 f1,
-            char[5] Acct,
-            Order,
-        },
-        repeat InSide285 {
-            repeat Order,
-            char[10] Px,
-            zchar[9] OrderId,
-        },
-        char[] venue,
-        Order,
-    },
-    @rightPad('\x00')
-    char[4] clOrdID,
-}
-
-root packet Party {
-    zchar[3] f1,
-    u32 clOrdID,
-    u32 Px @lengthOf(Body),
-    match clOrdID as Body {
-        [180, 64] : Heartbeat,
-        11 : Order,
-    },
-    u32 Side2 @calculatedFrom(""CR\
-        C32""),
-}")).
-Eval vm_compute in ("<<<M157>>>" ++ check (runes_of_ascii "packet Packet { zchar[ /// triple
-00] u
-@lengthOf(tag
-    ),	repeat // " ++ [128512]%N ++ runes_of_ascii " emoji
-string u8x `u8 x,`
-    , packetx { repeat uint8 leftPad `doc` ,
-}	,// " ++ [27880; 37322]%N ++ runes_of_ascii "
-@tag(	0123456789
-)char[] chars@lengthOf(rootA
-// trailing space 
-// c
-) `{ , }` , uint8 Packet ,
-repeat a1 `two words`
-//
-//
-,@calculatedFrom(
-    //	t
-    ""it's"") string_ {u16 A
-// packet A { u8 x, }
-// a // b
-`crlf
-line` , repeat
-string // " ++ [27880; 37322]%N ++ runes_of_ascii "
-uint8x
-    , string u128 ,
-    } , }	packet MetaDataX{
-    //x
-    @tag( 0123456789 ) char[ // packet A { u8 x, }
-3
-    ] Packet , } MetaData
-    repeatCount {  } root packet  u8x
-    // `tick` ""quote"" 'q'
-    { x_y_z// " ++ [27880; 37322]%N ++ runes_of_ascii "
-@lengthOf(
-    // a // b
-    o ) `two words` , // " ++ [27880; 37322]%N ++ runes_of_ascii "
-repeat zchar[ 0123456789
-] len `" ++ [233]%N ++ runes_of_ascii "` , }
-//
-")).
-Eval vm_compute in ("<<<M4402>>>" ++ check (runes_of_ascii "
-
-  options{	tag
-
-    =	""it's"" 
-//	t
-// packet A { u8 x, }
-
-; int =	zchar[ 00
-]
-;
-    x_y_z
-    =  ""a	b""
-;
-packetx
-
-    = ' '
-;
-	} packet rootA
-
-{
-uint8x
-    @calculatedFrom(
-    ""CRC32""
-
-    )	, // " ++ [27880; 37322]%N ++ runes_of_ascii "
-	  u // `tick` ""quote"" 'q'
-
-{	repeat
-
-    string repeatCount  `line1
-line2` ,
-    repeat 
-Logon
-	{  f32a
-
-    @lengthOf(
-roots),
-	Packet{
-int32 Z9_	`u8 x,` 
-,
-    } 
-,Packet Packet 
-,
-}
-    , 
-repeat 
-      // " ++ [128512]%N ++ runes_of_ascii " emoji
-  // trailing space 
-repeatCount zchar,
-    }
-	,a1
-@calculatedFrom(
-""abc"" )	// `tick` ""quote"" 'q'
-  , 
-} // `tick` ""quote"" 'q'
-		root packet crc 
-{
+)
+, @rightPad
+    ( '0' )  repeat falsey string_
+// @lengthOf(
+// " ++ [128512]%N ++ runes_of_ascii " emoji
+`{ , }` , @calculatedFrom( ""abc"" )//
 @tag(
-
-    00
-    )char[
-7
-
-// `tick` ""quote"" 'q'
-  ] asx	@lengthOf(
-
-    T
-    ) ``	, }
-
-")).
-Eval vm_compute in ("<<<M4464>>>" ++ check (runes_of_ascii "  //	t
-	packet
-
-len { repeat Logon
-    {
-i16
-	leftPad	,
-
-    } ,@calculatedFrom( ""a\""b"") repeat 	 /// triple
-    u16
-    // trailing space 
-	//x
-		u
-, @calculatedFrom( 
-    // a // b
-	""abc"" )Header
-`two words` ,
-
-u8
-
-pack
-
-@calculatedFrom(  """ ++ [233]%N ++ runes_of_ascii "t" ++ [233]%N ++ runes_of_ascii """ 
-    // " ++ [128512]%N ++ runes_of_ascii " emoji
-	)
-,
-}// @lengthOf(
-packet	string_
-
-    {
-    stringy@calculatedFrom(	// " ++ [128512]%N ++ runes_of_ascii " emoji
-      ""it's""	)
-    ,
-}
-
-packet
-	chars
-    { 
-// `tick` ""quote"" 'q'
-		match
-matchKey as 
-_x
-{
-
-    ""abc""
-:
-	Packet // " ++ [128512]%N ++ runes_of_ascii " emoji
-	}
-
-,	// @lengthOf(
-
-	char
-Foo `doc`	,	match
-
+00 ) rootA@calculatedFrom( ""it's"" ), BodyLength/// triple
+lengthOf `doc` , Z9_{ f64 Z9_ ,T
 charz
-
-    as
-	Foo{
-	[
+    `" ++ [233]%N ++ runes_of_ascii "`
+, x {
+tag crc,
+    repeat uint32	chars
+, zchar[ 0123456789 ]roots ,
+int64 charz@calculatedFrom(
+    ""it's"" ) `" ++ [28040; 24687; 31867; 22411]%N ++ runes_of_ascii "` ,} , i8 msg_type//	t
+@lengthOf( options1 )
+,
+    } ,
+    repeat MetaDataX { matchKey i64_ , string tag @lengthOf(
+    msg_type )// trailing space 
+, tag { string f32a
+,// " ++ [27880; 37322]%N ++ runes_of_ascii "
+match crc as u128
+{	4294967296  :
+    Z9_ ,""" ++ [28040; 24687]%N ++ runes_of_ascii """ : a1 ,//	t
+65535 : T , [ ""CRC32"" ,
 1
-	,
-
-    ""\" ++ [233]%N ++ runes_of_ascii """ ]
-    :
-
-    Logon ,},@lengthOf(  pack )	/// triple
-Packet
-, } 	 // a // b
-")).
-Eval vm_compute in ("<<<M654>>>" ++ check (runes_of_ascii "options
-    //	t
-    { lengthOf
-= ""a\""b""
-    A =
-    // packet A { u8 x, }
-    false ; repeatCount=
-7 ;body =// a // b
-true ; } packet roots { string f32a ,} root packet crc{@rightPad
-    ( '0' ) zchar[
-42 ] zchar	@calculatedFrom(""abc"" )
-    `// not a comment`,f32 x_y_z
-,
-repeat  packetx
-    `u8 x,` //x
-, @lengthOf(
-tag
-    ) f64	u8x `` , char[] options1//	t
-, @lengthOf( matchKey	)
-Logon @calculatedFrom(""{,}"" )
-    `" ++ [28040; 24687; 31867; 22411]%N ++ runes_of_ascii "` , }
-root packet
-falsey { match // @lengthOf(
-matchKey as asx{ ""\" ++ [233]%N ++ runes_of_ascii """:
-i64_ [ 4294967296 , ""a\\"" ] : falsey [
-3
-    , 7,
-    ""// no comment"" ,7 , ""CRC32"" , 0 ,
-""// no comment""
-    ,0 ] :
-zchar
-, },
-}")).
-Eval vm_compute in ("<<<M1101>>>" ++ check (runes_of_ascii "
-packet
-    a1 { uint16 MetaDataX @lengthOf( f32a )
-    , @lengthOf(
-leftPad)
-    @tag(
-    00) @tag( 0 )msg_type , match body as x_y_z
-{ """"  : trueish	,["""" , // " ++ [27880; 37322]%N ++ runes_of_ascii "
-00 ]
-    : pack
-    , //x
-0
-:// a // b
-i8i8 /// triple
-, [
-1 , ""// no comment""
-/// triple
-// " ++ [128512]%N ++ runes_of_ascii " emoji
-]// trailing space 
-: chars, } ,	repeat char[
-4294967296 // " ++ [27880; 37322]%N ++ runes_of_ascii "
-] stringy,T @calculatedFrom( """ ++ [128512]%N ++ runes_of_ascii """
-),@lengthOf( falsey //	t
-) float64
-    // " ++ [27880; 37322]%N ++ runes_of_ascii "
-    float `a\` , char[]	calculatedFrom@calculatedFrom(	""1"" ),
-// a // b
-//
-float64	zchar `// not a comment` , float32 Header
-    `a\`, //x
-zchar[ 42
-    ]
-As@lengthOf(
-chars )
-,
-    }
-")).
-Eval vm_compute in ("<<<M533>>>" ++ check (runes_of_ascii "packet asx {@calculatedFrom( ""`tick`""	)match crc as x {
-    3:x_y_z ,	""it's""
-    // trailing space 
-    : msg_type , [ 1 , /// triple
-10 , // " ++ [128512]%N ++ runes_of_ascii " emoji
-""abc""
-,
-0// a // b
-] :
-u } , @tag(65535	)
-packetx `two words`, }root packet rootA{chars @lengthOf(leftPad// " ++ [27880; 37322]%N ++ runes_of_ascii "
-)
-    /// triple
-    , @calculatedFrom(""a\\"") match crc as leftPad// `tick` ""quote"" 'q'
-{
-    [
-255
-,""a	b""
-]	:falsey,
-    00 : a1	,
-7
-/// triple
-/// triple
-: Z9_ , 00 : a1
-, } , match packetx as Pad	{	[
-""// no comment""]:
-len,
-} ,
-    }packet zchar { @calculatedFrom(""\n""
-)string Logon,
-}")).
-Eval vm_compute in ("<<<M3654>>>" ++ check (runes_of_ascii "  packet
-
-    // " ++ [128512]%N ++ runes_of_ascii " emoji
-  Header 
-{	@calculatedFrom(	"""" )@calculatedFrom( 
-""" ++ [128512]%N ++ runes_of_ascii """
-)
-	@calculatedFrom(
-	""it's""
-
-)
-    tag 
-	    // trailing space 
-
-	//
-    { 
-int32 repeatCount  ,
-    f32a //
-  @lengthOf(
-
-    BodyLength) 
-,	calculatedFrom
-	{
-	i64_
-len	, trueish 
-@lengthOf(body
-    )
-
-    `
-` , i64
-f32a
-`u8 x,`
-, //x
-match
-
-    Foo
-as
-A
-
-    { 
-007
-:
-	options1 
-//x
-/// triple
-  ,255:
-charz ,
-""" ++ [233]%N ++ runes_of_ascii "t" ++ [233]%N ++ runes_of_ascii """:zchar, ""`tick`""  :u8x , 
-1:len }, 
-} , } ,repeat leftPad
-{ uint32
-	packetx
-``
-
-,
-
-    } 	 // c
-		,
-
-    } ")).
-Eval vm_compute in ("<<<M3284>>>" ++ check (runes_of_ascii "// top
-packet
-    // c0
-trueish
-    // c1
-{
-    // c2
-repeat
-    // c3
-u32
-    // c4
-MetaDataX
-    // c5
-`doc`
-    // c6
-,
-    // c7
-Header
-    // c8
-{
-    // c9
-packetx
-    // c10
-o
-    // c11
-`u8 x,`
-    // c12
-,
-    // c13
-}
-    // c14
-,
-    // c15
-@leftPad
-    // c16
-(
-    // c17
-'\x00'
-    // c18
-)
-    // c19
-repeat
-    // c20
-char[
-    // c21
-0123456789
-    // c22
-]
-    // c23
-repeatCount
-    // c24
-,
-    // c25
-}
-    // c26
-packet
-    // c27
-Packet
-    // c28
-{
-    // c29
-}
-    // c30
-")).
-Eval vm_compute in ("<<<M1291>>>" ++ check (runes_of_ascii "/// triple
-root packet x{
-@rightPad () // trailing space 
-string f32a `two words` ,  match MetaDataX as packetx { ""CRC32""
-: metadata, ""\" ++ [233]%N ++ runes_of_ascii """
-    // @lengthOf(
-    :
-leftPad ,
-// packet A { u8 x, }
-// trailing space 
-[ ""// no comment"" , 00
-    , 4294967296  ,  10	,65535
-    , ""`tick`"", ""a\""b"" ] : chars , """ ++ [28040; 24687]%N ++ runes_of_ascii """:Foo , ""a\\"" :
-    calculatedFrom , }
-,@calculatedFrom( ""a\\""
-) @lengthOf(A
-) @calculatedFrom( """ ++ [128512]%N ++ runes_of_ascii """) x_y_z ,
-repeat crc {
-    string repeatCount , } , } options {
-}
-")).
-Eval vm_compute in ("<<<M486>>>" ++ check (runes_of_ascii "packet Pad
-{@lengthOf( len	)	zchar[10 ] int  `a\` , @tag( 007 )
-string leftPad@lengthOf(	string_ )
-, char[ 0123456789 ] len ,u32
-    crc
-`two words` ,
-} root
-packet u128 {zchar[ 00
-    ]
-A @calculatedFrom( ""\" ++ [233]%N ++ runes_of_ascii """
-    )
-    `line1
-line2`
-    , @tag(
-10 )
-char[] len	`" ++ [28040; 24687; 31867; 22411]%N ++ runes_of_ascii "`
-,	@leftPad
-    (
-) @lengthOf(  A
-) match crc as msg_type { 7 :
-trueish }
-    , @leftPad
-    (
-'0'
-)
-    f32a @calculatedFrom( ""// no comment"")// @lengthOf(
-`crlf
-line`
-    ,  }
-")).
-Eval vm_compute in ("<<<M3546>>>" ++ check (runes_of_ascii "options	{  LittleEndian
-    =  false
-    ; 
-StringPrefixLenType
-
-= u8	;ArrayPrefixLenType
-    =
-u16 ; 
-FixedStringPadFromLeft = false
-    ;
-
-}  packet Heartbeat
-    {
-    u8	seqNo, @rightPad ('\x00'
-) char[8
-    ]
-	x,
-
-    }root
-packet Trade{repeat
-Heartbeat,
-float32	OrderId
-	,	i64
-	Acct	, u16 
-Qty ,
-
-    u16
-clOrdID
-    ,  match  clOrdID
-
-as
-	Body
-{	131
-    :
-
-    Heartbeat,
-	}, 
-u16
-sym
-@calculatedFrom(
-
-""CRC32""
-    )  , }")).
-Eval vm_compute in ("<<<M3635>>>" ++ check (runes_of_ascii "// top
-packet P1 {
-    // c2
-    u8 a,// c5
-}
-
-// c6
-packet P2 {
-    // c9
-    P1,// c11
-}
-
-packet P3 {
-    P2,
-    P1,
-}
-
-// c20
-packet P4 {
-    repeat P3,
-    // c26
-    P2,// c28
-}
-
-// c29
-root packet P5 {
-    // c33
-    P4,// c35a
-    // c35b
-    P3,// c37
-    P1,
-    u8 K,// c42
-    match K as Body {
-        // c47
-        4 : P4,
-        3 : P3,
-        2 : P2,
-        // c59
-        1 : P1,
-    },// c65
-}
-// c66")).
-Eval vm_compute in ("<<<M220>>>" ++ check (runes_of_ascii "
-packet	float // a // b
-{ // c
-}
-packet u128 { @calculatedFrom(	""1"") asx x_y_z `" ++ [28040; 24687; 31867; 22411]%N ++ runes_of_ascii "` ,}
-    root packet
-    u8x { repeat uint8x	T
-, }
-packet leftPad
-    {
-i64_,@leftPad ( '0' )
-repeat	tag
-,repeat  uint8x  {	matchKey @calculatedFrom( ""abc""
-    ) , string charz ,
-    }// trailing space 
-,@rightPad
-( )zchar[ 10] charz
-    @calculatedFrom( """ ++ [128512]%N ++ runes_of_ascii """ )	`// not a comment` , // trailing space 
-}
-// @lengthOf(
-")).
-Eval vm_compute in ("<<<M3726>>>" ++ check (runes_of_ascii "// top
-MetaData x_y_z {
-    // c2
-    char body,// c5a
-    // c5b
-    f64 i8i8 `two words`,// c9a
-    // c9b
-    body body `" ++ [28040; 24687; 31867; 22411]%N ++ runes_of_ascii "`,
-}// c14a
-
-// c14b
-root packet chars {
-    // c18
-    @lengthOf(i64_)
-    chars,// c23a
-    // c23b
-    i8i8 {
-        // c25a
-        // c25b
-        falsey @lengthOf(stringy) `doc`,
-        // c31
-    },
-    x @lengthOf(A) `crlf
-    line`,
-}// c40a
-// c40b")).
-Eval vm_compute in ("<<<M892>>>" ++ check (runes_of_ascii "// c
-packet	uint8x
-{ @calculatedFrom(
-    ""CRC32"" )  repeat BodyLength,// " ++ [128512]%N ++ runes_of_ascii " emoji
-f32a
-    ,
-}
-// @lengthOf(
-//x
-root packet rootA
-    { @lengthOf( BodyLength )
-@lengthOf(
-roots )	repeat int // " ++ [27880; 37322]%N ++ runes_of_ascii "
-roots
-,
-    @tag(
-    007)repeat
-float64 o	, @calculatedFrom( """" )
-char[ 255	] repeatCount ,
-    // " ++ [128512]%N ++ runes_of_ascii " emoji
-    int {repeat roots roots , u32 tag  `crlf
-line` ,}
-    ,	}")).
-Eval vm_compute in ("<<<M343>>>" ++ check (runes_of_ascii "
-root packet Packet { @calculatedFrom(""packet""
-)
-    char[]  Packet
-, match	crc
-as T {255 :A ,
-} ,
-/// triple
-// `tick` ""quote"" 'q'
-repeat x_y_z , x_y_z@calculatedFrom( ""`tick`"" )`a\` ,
-// c
-//x
-@calculatedFrom( // a // b
-""" ++ [28040; 24687]%N ++ runes_of_ascii """ ) @lengthOf(Foo
-    )match MetaDataX as T
-    { 0 : repeatCount , } , } MetaData string_
-{ u64 x_y_z,	}packet u // " ++ [27880; 37322]%N ++ runes_of_ascii "
-{
-    }
-")).
-Eval vm_compute in ("<<<M3768>>>" ++ check (runes_of_ascii "options {
-    x_y_z = ""x y"";
-}
-
+, ""packet"" ]
+: x_y_z , } ,	string matchKey @calculatedFrom(""" ++ [28040; 24687]%N ++ runes_of_ascii """ ) `two words`	, } , char[ 65535 // trailing space 
+] Header@calculatedFrom( ""CRC32"" ) `// not a comment` ,
+} ,match
+Foo as metadata	{
+[""1"" ,
+//	t
 // " ++ [27880; 37322]%N ++ runes_of_ascii "
-packet int {
-    @calculatedFrom(""\" ++ [233]%N ++ runes_of_ascii """)
-    match MetaDataX as o {
-        // c
-        4294967296 : o,
-    },
-}
-
-// packet A { u8 x, }
-MetaData asx {
-    As u8x `// not a comment`,
-    char[] string_ `doc`,
-    i64_ Z9_,
-    i16 leftPad `it's`,
-    u16 BodyLength `// not a comment`,
-    lengthOf len,
-}")).
-Eval vm_compute in ("<<<M435>>>" ++ check (runes_of_ascii "// trailing space 
-packet i64_ {uint8	body , @calculatedFrom(
-""\n"" ) repeat BodyLength {repeat
-// trailing space 
-// packet A { u8 x, }
-crc	len
-`" ++ [233]%N ++ runes_of_ascii "`
-, As , repeat char[] Header
-,
-}, match T as T { 3 : repeatCount ,}  , match tag
-    as pack {	""a	b""://
-string_  , } ,
-    zchar[10  ] a1 ``
-    ,
-@tag( 3//	t
-) string int ,
-}
-")).
-Eval vm_compute in ("<<<M96>>>" ++ check (runes_of_ascii "options{
-} packet /// triple
-chars {
-int64 i8i8
-    /// triple
-    @calculatedFrom( ""// no comment"" ) `line1
-line2` ,
-@calculatedFrom(
-""`tick`"" )
-    _x
-    `" ++ [28040; 24687; 31867; 22411]%N ++ runes_of_ascii "` , match
-float /// triple
-as BodyLength  {//
-""" ++ [28040; 24687]%N ++ runes_of_ascii """:
-    x_y_z [ 7 , 10
-    , """ ++ [233]%N ++ runes_of_ascii "t" ++ [233]%N ++ runes_of_ascii """	, 1 ,""x y"" , 3 ] :	i64_	,
-} , // a // b
-} packet
-uint8x { } // " ++ [27880; 37322]%N)).
-Eval vm_compute in ("<<<M1560>>>" ++ check (runes_of_ascii "root packet Foo // " ++ [128512]%N ++ runes_of_ascii " emoji
-{ } options {
-    // a // b
-    tag // `tick` ""quote"" 'q'
-= //	t
 """"
-    ; u8x = zchar[0  ] }
-MetaData
-    int {zchar[ 10]
-lengthOf	`` , i64 u8x`// not a comment` ,MetaDataX MetaDataX pack// `tick` ""quote"" 'q'
-`crlf
-line`
-, Logon charz `crlf
-line`
-    ,
-    // a // b
-    }
-")).
-Eval vm_compute in ("<<<M1577>>>" ++ check (runes_of_ascii "root packet Foo // " ++ [128512]%N ++ runes_of_ascii " emoji
-{ } options {
-    // a // b
-    tag // `tick` ""quote"" 'q'
-= //	t
-""""
-    ; u8x = zchar[0  ] }
-MetaData
-    int {zchar[ 10]
-lengthOf	`` , i64 u8x`// not a comment` ,MetaDataX pack// `tick` ""quote"" 'q'
-`crlf
-line`
-match Logon charz `crlf
-line`
-    ,
-    // a // b
-    }
-")).
-Eval vm_compute in ("<<<M1535>>>" ++ check (runes_of_ascii "root packet Foo // " ++ [128512]%N ++ runes_of_ascii " emoji
-{ } options {
-    // a // b
-    tag // `tick` ""quote"" 'q'
-= //	t
-""""
-    ; u8x = zchar[0  ] }
-MetaData
-    int {zchar[ 10]
-lengthOf	`` , , i64 u8x`// not a comment` ,MetaDataX pack// `tick` ""quote"" 'q'
-`crlf
-line`
-, Logon charz `crlf
-line`
-    ,
-    // a // b
-    }
-")).
-Eval vm_compute in ("<<<M1426>>>" ++ check (runes_of_ascii "root packet Foo // " ++ [128512]%N ++ runes_of_ascii " emoji
-} { options {
-    // a // b
-    tag // `tick` ""quote"" 'q'
-= //	t
-""""
-    ; u8x = zchar[0  ] }
-MetaData
-    int {zchar[ 10]
-lengthOf	`` , i64 u8x`// not a comment` ,MetaDataX pack// `tick` ""quote"" 'q'
-`crlf
-line`
-, Logon charz `crlf
-line`
-    ,
-    // a // b
-    }
-")).
-Eval vm_compute in ("<<<M1587>>>" ++ check (runes_of_ascii "root packet Foo // " ++ [128512]%N ++ runes_of_ascii " emoji
-{ } options {
-    // a // b
-    tag // `tick` ""quote"" 'q'
-= //	t
-""""
-    ; u8x = zchar[0  ] }
-MetaData
-    int {zchar[ 10]
-lengthOf	`` , i64 u8x`// not a comment` ,MetaDataX pack// `tick` ""quote"" 'q'
-`crlf
-line`
-, Logon uint8 `crlf
-line`
-    ,
-    // a // b
-    }
-")).
-Eval vm_compute in ("<<<M1454>>>" ++ check (runes_of_ascii "root packet Foo // " ++ [128512]%N ++ runes_of_ascii " emoji
-{ } options {
-    // a // b
-    tag // `tick` ""quote"" 'q'
-= //	t
-
-    ; u8x = zchar[0  ] }
-MetaData
-    int {zchar[ 10]
-lengthOf	`` , i64 u8x`// not a comment` ,MetaDataX pack// `tick` ""quote"" 'q'
-`crlf
-line`
-, Logon charz `crlf
-line`
-    ,
-    // a // b
-    }
-")).
-Eval vm_compute in ("<<<M1592>>>" ++ check (runes_of_ascii "root packet Foo // " ++ [128512]%N ++ runes_of_ascii " emoji
-{ } options {
-    // a // b
-    tag // `tick` ""quote"" 'q'
-= //	t
-""""
-    ; u8x = zchar[0  ] }
-MetaData
-    int {zchar[ 10]
-lengthOf	`` , i64 u8x`// not a comment` ,MetaDataX pack// `tick` ""quote"" 'q'
-`crlf
-line`
-, Logon charz zchar[
-    ,
-    // a // b
-    }
-")).
-Eval vm_compute in ("<<<M236>>>" ++ check (runes_of_ascii "root packet
-    x_y_z{ match lengthOf
-as // `tick` ""quote"" 'q'
-rootA { 42 :
-    asx } ,	@rightPad(
-' ' ) repeat u16 int`// not a comment`, @tag(42	)rootA string_, int32 lengthOf // trailing space 
-,match
-    As as falsey { [ ""// no comment"" ] :
-    calculatedFrom,
-    } , }
-")).
-Eval vm_compute in ("<<<M3497>>>" ++ check (runes_of_ascii "  packet 
-P1{
-
-    u8
-
-a 
-,}	packet
-P2 {
-    P1	,} packet
-P3 {
-P2
-,
-P1	,}  packet
-    P4
-
-    {
-repeat P3
-,	P2 ,}
-root	packet P5
-
-{ 
-P4,
-
-    P3
-
-,P1 ,	u8  K
-
-    ,
-    match  K	as  Body	{
-
-4 :	P4
-
-,	3
-:P3
-
-    , 
-2 : P2
-
-,
-    1
-:
-
-P1 ,
-
-    } ,} ")).
-Eval vm_compute in ("<<<M1295>>>" ++ check (runes_of_ascii "packet
-    len {
-@calculatedFrom( ""1""	) zchar[ 0 ] tag`u8 x,`
-    , @tag( 7 )repeat uint64 stringy `// not a comment` , @calculatedFrom( ""\n""
-)
-    @lengthOf(
-    trueish ) repeat _x zchar , @lengthOf( crc ) zchar[
-255  ]
-Foo`" ++ [233]%N ++ runes_of_ascii "`
-,} // trailing space ")).
-Eval vm_compute in ("<<<M3846>>>" ++ check (runes_of_ascii "root packet Logon {
-    @tag(0123456789)
-    @leftPad(' ')
-    Packet {
-        o @calculatedFrom(""a	b"") `tab	here`,
-    },
-    repeat leftPad i8i8 `line1
-        line2`,
-    i64 calculatedFrom,
-    float32 stringy @calculatedFrom(""`tick`""),
-}")).
-Eval vm_compute in ("<<<M1293>>>" ++ check (runes_of_ascii "root packet
-    charz {roots falsey	, @lengthOf(
-    // packet A { u8 x, }
-    u8x )T @lengthOf( x) `line1
-line2` /// triple
-,	x
-@calculatedFrom(
-    // a // b
-    ""// no comment"" ),  @leftPad
-    (
-' ' )	zchar[ 0123456789	] string_, }")).
-Eval vm_compute in ("<<<M4232>>>" ++ check (runes_of_ascii "options {
-    len = false// " ++ [128512]%N ++ runes_of_ascii " emoji
-}
-
-options {
-    leftPad = ""`tick`"";
-    repeatCount = char[4294967296]
-    chars = ""`tick`""
-}
-
-packet trueish {
-    u16 crc,
-    @tag(0123456789)
-    string trueish `crlf
-        line`,
-}")).
-Eval vm_compute in ("<<<M2331>>>" ++ check (runes_of_ascii "MetaData Packet { }packet	asx  { @lengthOf( asx) falsey`crlf
-line`
-,
-    }
-    packet x	{uint32// @lengthOf(
-rootA	,u32 options1 `say ""hi""` , @tag( @tag( 7
-    )// packet A { u8 x, }
-msg_type @lengthOf(
-stringy	)	, }
-
-")).
-Eval vm_compute in ("<<<M2306>>>" ++ check (runes_of_ascii "MetaData Packet { }packet	asx  { @lengthOf( asx) falsey`crlf
-line`
-,
-    }
-    packet x	{uint32// @lengthOf(
-rootA	, ,u32 options1 `say ""hi""` , @tag( 7
-    )// packet A { u8 x, }
-msg_type @lengthOf(
-stringy	)	, }
-
-")).
-Eval vm_compute in ("<<<M2222>>>" ++ check (runes_of_ascii "MetaData Packet } {packet	asx  { @lengthOf( asx) falsey`crlf
-line`
-,
-    }
-    packet x	{uint32// @lengthOf(
-rootA	,u32 options1 `say ""hi""` , @tag( 7
-    )// packet A { u8 x, }
-msg_type @lengthOf(
-stringy	)	, }
-
-")).
-Eval vm_compute in ("<<<M1215>>>" ++ check (runes_of_ascii "packet lengthOf {
-repeat  lengthOf {
-    charz `
-` , string
-stringy,a1{	BodyLength , }
-, }
-    , pack Logon,	@rightPad (  ) zchar[007
+] :  metadata	[ 0123456789  ] : tag ,
+""1"" :  T
+//	t
+// a // b
+4294967296
+    :x , // packet A { u8 x, }
+0 :
+trueish ,	""{,}"" :  metadata , // a // b
+}, zchar[255
 ]
-x , } packet	Header  {@calculatedFrom( """ ++ [128512]%N ++ runes_of_ascii """
-    ) Logon`it's` ,} options { }")).
-Eval vm_compute in ("<<<M1002>>>" ++ check (runes_of_ascii "options
-    {roots =
-    uint8 ;
-    asx= ' '
-    // a // b
-    ; }
-options
-    // a // b
-    { }root packet  Packet { @lengthOf(T )@calculatedFrom(""abc""  ) @calculatedFrom( ""1"" )A // c
-lengthOf, }
-/// triple
-")).
-Eval vm_compute in ("<<<M2268>>>" ++ check (runes_of_ascii "MetaData Packet { }packet	asx  { @lengthOf( asx) falsey i32
+    u128
+@lengthOf(float ) ,// trailing space 
+} packet a1
+{ @rightPad ( ' ' ) @tag( 7//x
+)@tag( 10 )
+//	t
+// trailing space 
+Header { Packet @lengthOf( lengthOf ) , string
+options1
 ,
-    }
-    packet x	{uint32// @lengthOf(
-rootA	,u32 options1 `say ""hi""` , @tag( 7
-    )// packet A { u8 x, }
-msg_type @lengthOf(
-stringy	)	, }
-
-")).
-Eval vm_compute in ("<<<M3481>>>" ++ check (runes_of_ascii "packet orderItem
-    // c1
-{ // c2
-u8 // c3a
-  // c3b
-a
-    // c4
-,
-    // c5
-} root packet // c8
-newOrder // c9a
-  // c9b
+match zchar as pack
+{ """" :o , """ ++ [28040; 24687]%N ++ runes_of_ascii """ :	leftPad  , """ ++ [28040; 24687]%N ++ runes_of_ascii """ :
+crc } ,	Z9_
+//x
+// trailing space 
 {
-    // c10
-orderItem // c11a
-  // c11b
-, // c12
-u8
-    // c13
-x // c14
-, } ")).
-Eval vm_compute in ("<<<M3664>>>" ++ check (runes_of_ascii "// " ++ [128512]%N ++ runes_of_ascii " emoji
-MetaData Foo {
-}
-
-MetaData x {
-}
-
-MetaData zchar {
-    options1 f32a,
-    int32 stringy,
-    string msg_type `
-        `,
-    string T,
-    a1 trueish `{ , }`,
-    f32 BodyLength,
-}")).
-Eval vm_compute in ("<<<M4027>>>" ++ check (runes_of_ascii "root packet Frame {
-    u8 K,
-    Logon first,
-    match K as Body {
-        1 : Logon,
-        2 : Logout,
-    },
-}
-
-packet Logon {
-    string user,
+    //
+    len//	t
+int ,  } ,
+    },}
+")).
+Eval vm_compute in ("<<<M107>>>" ++ check (runes_of_ascii "packet chars
+{
+    i8 Z9_ ,
+match
+// " ++ [128512]%N ++ runes_of_ascii " emoji
+//	t
+zchar
+    as Logon
+{ 00	: i8i8[
+    ""// no comment""
+, 42
+    , 10 , ""it's"" , 4294967296
+, ""`tick`"" ,
+    ""x y"" , ""a\""b"" ]
+    :leftPad [ ""\" ++ [233]%N ++ runes_of_ascii """ ]: A [ ""abc"" /// triple
+, ""1""
+    ] :
+zchar ,	3 :
+x,
+    3 :
+x_y_z , }
+    , uint8x // a // b
+@calculatedFrom(
+    ""{,}"" )//x
+, } // `tick` ""quote"" 'q'
+packet calculatedFrom { int32
+T, @lengthOf( float ) f32a len , @calculatedFrom(""" ++ [233]%N ++ runes_of_ascii "t" ++ [233]%N ++ runes_of_ascii """
+    ) int32 f32a
+@lengthOf( // c
+matchKey
+) `" ++ [233]%N ++ runes_of_ascii "`
+, charz @calculatedFrom( ""x y""),} root packet stringy //	t
+{ @lengthOf( Logon )
+int64 len
+    //x
+    @calculatedFrom( // `tick` ""quote"" 'q'
+""CRC32"") , T // " ++ [27880; 37322]%N ++ runes_of_ascii "
+@calculatedFrom( ""1"" ) `line1
+line2`, @tag( 255 )
+    @tag( 7 )@tag(
+007
+)repeat
+packetx len
+//	t
+// packet A { u8 x, }
+, @tag(
+1 ) repeat  zchar[
+0] float , //
+@lengthOf(
+    lengthOf ) repeat x_y_z {char[ 10]u `
+`
+    , MetaDataX a1
+    `u8 x,`  , }  , @tag( 1 ) string repeatCount `" ++ [28040; 24687; 31867; 22411]%N ++ runes_of_ascii "`,
+int8 int @calculatedFrom(
+""// no comment""
+) , } packet
+    asx
+{
+    @leftPad ( '\x00' )
+char[
+    00]
+u8x @calculatedFrom( """ ++ [233]%N ++ runes_of_ascii "t" ++ [233]%N ++ runes_of_ascii """ ) , zchar[007 ] asx @calculatedFrom(
+""" ++ [128512]%N ++ runes_of_ascii """)	,repeat MetaDataX metadata
+    `
+`,
+    } 	 ")).
+Eval vm_compute in ("<<<M1568>>>" ++ check (runes_of_ascii "options {
+    StringPrefixLenType = u8;
+    ArrayPrefixLenType = u8;
+    FixedStringPadFromLeft = true;
+    FixedStringPadChar = ' ';
 }
 
 packet Logout {
-    u16 reason,
-}")).
-Eval vm_compute in ("<<<M1098>>>" ++ check (runes_of_ascii "packet falsey {
-    @leftPad () // packet A { u8 x, }
-zchar[ 007
-    ] i8i8 @calculatedFrom( """ ++ [28040; 24687]%N ++ runes_of_ascii """),a1 {float32
-Foo @lengthOf( u8x
-) ,
-},chars , repeat char[] roots `" ++ [28040; 24687; 31867; 22411]%N ++ runes_of_ascii "` ,}
-")).
-Eval vm_compute in ("<<<M804>>>" ++ check (runes_of_ascii "options
-{ calculatedFrom=
-    // packet A { u8 x, }
-    """ ++ [28040; 24687]%N ++ runes_of_ascii """ ;
-    u = false BodyLength=
-    // `tick` ""quote"" 'q'
-    65535
-; msg_type  = 0
-    lengthOf= true
-    ;}
-")).
-Eval vm_compute in ("<<<M1357>>>" ++ check (runes_of_ascii "root packet  len{
-@rightPad (
-'0' )
-T {
-/// triple
-// c
-match charz
-as crc
-{ 3  :// a // b
-BodyLength 42 : stringy ""a\\"" :options1 // c
+    repeat string Px,
+    repeat string seqNo,
+    InMsgkind64 {
+        uint16 OrderId,
+        char[] count,
+        repeat i32 venue,
+    },
 }
-    , } ,
-} // a // b")).
-Eval vm_compute in ("<<<M1361>>>" ++ check (runes_of_ascii "options { T
-= u64 // trailing space 
-uint8x = """ ++ [128512]%N ++ runes_of_ascii """ ; chars
-    = char[	0123456789 ]	;Z9_//	t
-= ""// no comment""} MetaData
-    x_y_z {
-} // `tick` ""quote"" 'q'")).
-Eval vm_compute in ("<<<M353>>>" ++ check (runes_of_ascii "packet x  {match u128
-as stringy// " ++ [128512]%N ++ runes_of_ascii " emoji
-{ // a // b
-[ """ ++ [28040; 24687]%N ++ runes_of_ascii """
-    //	t
-    ,	42 , ""// no comment"" // a // b
-,""1""] :MetaDataX
-, ""it's"" :o	,} ,
-    }
-")).
-Eval vm_compute in ("<<<M3392>>>" ++ check (runes_of_ascii "MetaData _x
-    // c1
-{
-    // c2
-zchar[ 4294967296 // c4a
-  // c4b
-] lengthOf // c6
-`// not a comment` // c7a
-  // c7b
+
+packet Heartbeat {
+    float32 tag7,
+    repeat InPrice50 {
+        repeat char[5] lastPx,
+        InRef42 {
+            u8 pad0,
+        },
+        uint32 Acct,
+        repeat Logout,
+        repeat char[5] Qty,
+    },
+    repeat InSeqno30 {
+        repeat Logout,
+    },
+    @leftPad('0')
+    char[12] Acct,
+    char[] Side2,
+    repeat string msgKind,
+}
+
+packet Ack {
+    Heartbeat,
+    char[8] seqNo,
+    float64 clOrdID,
+}
+
+packet Trade {
+    char[] OrderId,
+    f64 Side2,
+    zchar[8] f1,
+    string Qty,
+    float64 seqNo,
+    repeat Logout,
+}
+
+packet Order {
+    f32 OrderId,
+    repeat u8 x,
+    Ack,
+    zchar[7] Note,
+}
+
+root packet Logon {
+    @rightPad('\x00')
+    char[9] f1,
+}")).
+Eval vm_compute in ("<<<M1805>>>" ++ check (runes_of_ascii "
+root
+
+packet
+body
+{ 	 /// triple
+    	crc
+
+    x_y_z `say ""hi""`
+,  float // `tick` ""quote"" 'q'
+  _x ,T  // " ++ [128512]%N ++ runes_of_ascii " emoji
+    `a\` 
+
+    // " ++ [27880; 37322]%N ++ runes_of_ascii "
+  ,uint64 MetaDataX	, repeat
+
+zchar[7
+	]calculatedFrom
+``
 ,
-    // c8
-}
-    // c9
-")).
-Eval vm_compute in ("<<<M3782>>>" ++ check (runes_of_ascii "packet crc {
-    @lengthOf(calculatedFrom)
-    i64_ {
-        uint64 _x,
-    },
-    @rightPad('0')
-    uint8x,
-    // packet A { u8 x, }
-}")).
-Eval vm_compute in ("<<<M4405>>>" ++ check (runes_of_ascii "root packet Packet {
-    leftPad As,
-    char[] string_,
-}
+uint32
+len 
 
-MetaData x {
-    a1 u128 `u8 x,`,
-    // a // b
-    // packet A { u8 x, }
-}")).
-Eval vm_compute in ("<<<M1734>>>" ++ check (runes_of_ascii "root packet /// triple
-rootA {	i32
-MetaDataX@calculatedFrom( ""CRC32"" ) `line1
-line2` , } MetaData BodyLength {
-u8
-roo'1'tA, } // c")).
-Eval vm_compute in ("<<<M4228>>>" ++ check (runes_of_ascii "packet A {
-    match k as n {
-        [
-            1, 22, ""c c"", 4, 5,
-            ""f"", 7
-        ] : B,
-        2 : C,
-    },
-}")).
-Eval vm_compute in ("<<<M1712>>>" ++ check (runes_of_ascii "root packet /// triple
-rootA {	i32
-MetaDataX@calculatedFrom( ""CRC32"" ) `line1
-line2` , } MetaData BodyLength {
-u8
-rootA,  // c")).
-Eval vm_compute in ("<<<M4433>>>" ++ check (runes_of_ascii "
-packet
-
-calculatedFrom {  @tag(
-
-4294967296 
-)  u 
-msg_type// c
-  ,
-
-char[  3
-	]crc
-    @lengthOf( len )`u8 x,` ,
-
-    } ")).
-Eval vm_compute in ("<<<M4369>>>" ++ check (runes_of_ascii "packet A {
-    match k as n {
-        [
-            1, 22, 007, 4, 5,
-            66
-        ] : B,
-        2 : C,
-    },
-}")).
-Eval vm_compute in ("<<<M1195>>>" ++ check (runes_of_ascii "options /// triple
-{ tag =char[ 00 ]
-; } root
-    packet
+// c
     // @lengthOf(
-    Header { /// triple
-repeat  packetx , }
-")).
-Eval vm_compute in ("<<<M4044>>>" ++ check (runes_of_ascii "
-packet  
-  // c
-calculatedFrom 
-{
 
-@tag(4294967296  )	u
-msg_type,
-char[3
-    ]
-
-crc @lengthOf( len ) `u8 x,`
-	, }
-
-")).
-Eval vm_compute in ("<<<M1787>>>" ++ check (runes_of_ascii "packet
-    { // a // b
-Pad i8i8 @calculatedFrom( ""a	b"") `u8 x,` ,
-} options{ float// " ++ [128512]%N ++ runes_of_ascii " emoji
-= f64 i64_
-=//	t
-00 }
-")).
-Eval vm_compute in ("<<<M1835>>>" ++ check (runes_of_ascii "packet
-    Pad // a // b
-{ i8i8 @calculatedFrom( ""a	b"") `u8 x,` ,
-} options float// " ++ [128512]%N ++ runes_of_ascii " emoji
-= f64 i64_
-=//	t
-00 }
-")).
-Eval vm_compute in ("<<<M1785>>>" ++ check (runes_of_ascii "packet
-     // a // b
-{ i8i8 @calculatedFrom( ""a	b"") `u8 x,` ,
-} options{ float// " ++ [128512]%N ++ runes_of_ascii " emoji
-= f64 i64_
-=//	t
-00 }
-")).
-Eval vm_compute in ("<<<M1701>>>" ++ check (runes_of_ascii "root packet /// triple
-rootA {	i32
-MetaDataX@calculatedFrom( ""CRC32"" ) `line1
-line2` , } MetaData BodyLength {")).
-Eval vm_compute in ("<<<M222>>>" ++ check (runes_of_ascii "MetaData float { }  options {
-msg_type=""a	b""
-    i8i8	= true stringy = ""CRC32""
-    } options { len
-= ""\" ++ [233]%N ++ runes_of_ascii """ }")).
-Eval vm_compute in ("<<<M2994>>>" ++ check (runes_of_ascii "packet A {
-  match k as n {
-    [1, ""bb"", 007, ""d"", 5, ""f"", 7, ""h"", 9, ""j"", 11, ""l""] : B
-    2 : C
-  },
-}")).
-Eval vm_compute in ("<<<M3342>>>" ++ check (runes_of_ascii "packet calculatedFrom
-// c
-{ @tag( 4294967296 ) u msg_type , char[ 3 ] crc @lengthOf( len ) `u8 x,` , }")).
-Eval vm_compute in ("<<<M3374>>>" ++ check (runes_of_ascii "packet calculatedFrom { @tag( 4294967296 ) u msg_type , char[ 3 ] crc @lengthOf( len ) `u8 x,` ,
-// c
-}")).
-Eval vm_compute in ("<<<M1859>>>" ++ check (runes_of_ascii "packet
-    Pad // a // b
-{ i8i8 @calculatedFrom( ""a	b"") `u8 x,` ,
-} options{ float// " ++ [128512]%N ++ runes_of_ascii " emoji
-= f64")).
-Eval vm_compute in ("<<<M3185>>>" ++ check (runes_of_ascii "// top
-MetaData // c0
-zchar // c1
-{ // c2
-zchar[ // c3
-3 // c4
-] // c5
-Pad // c6
-, // c7
-} // c8
-")).
-Eval vm_compute in ("<<<M3218>>>" ++ check (runes_of_ascii "packet Logon // c
-{ @tag( 42 ) @rightPad ( ' ' ) @leftPad ( ) repeat trueish { string T , } , }")).
-Eval vm_compute in ("<<<M3250>>>" ++ check (runes_of_ascii "packet Logon { @tag( 42 ) @rightPad ( ' ' ) @leftPad ( ) repeat trueish { string T // c
-, } , }")).
-Eval vm_compute in ("<<<M4136>>>" ++ check (runes_of_ascii "packet o { @tag(
-
-42
-) repeat	x
-    {	char[ 0123456789
-// c
-    ]i64_	,
-},  }
-options
-{ }
-
-")).
-Eval vm_compute in ("<<<M2943>>>" ++ check (runes_of_ascii "packet A {
-  match k as n {
-    [""a"", 22, ""c c"", 4, ""e"", 66, ""g"", 8] : B,
-    2 : C
-  },
-}")).
-Eval vm_compute in ("<<<M2942>>>" ++ check (runes_of_ascii "packet A {
-  match k as n {
-    [1, ""bb"", 007, ""d"", 5, ""f"", 7, ""h""] : B
-    2 : C
-  },
-}")).
-Eval vm_compute in ("<<<M4458>>>" ++ check (runes_of_ascii "
-
-  MetaData _x // c
+`a\`  , }	/// triple
+  options
 	{
-    zchar[  4294967296  ]
-lengthOf
-    `// not a comment` , }
-")).
-Eval vm_compute in ("<<<M1993>>>" ++ check (runes_of_ascii "root
-packet crc
-    { f32a @calculatedFrom( """ ++ [233]%N ++ runes_of_ascii "t" ++ [233]%N ++ runes_of_ascii """ `say ""hi""`
-    ), lengthOf `` ,  }")).
-Eval vm_compute in ("<<<M4176>>>" ++ check (runes_of_ascii "packet A {
-    B b `x
-        `,
-    B `x
-        `,
-    repeat B bs `x
-        `,
-}")).
-Eval vm_compute in ("<<<M1965>>>" ++ check (runes_of_ascii "root
-as crc
-    { f32a @calculatedFrom( """ ++ [233]%N ++ runes_of_ascii "t" ++ [233]%N ++ runes_of_ascii """ )
-    `say ""hi""`, lengthOf `` ,  }")).
-Eval vm_compute in ("<<<M3317>>>" ++ check (runes_of_ascii "packet o { @tag( 42 ) repeat x { char[ 0123456789 ]
-// c
-i64_ , } , } options { }")).
-Eval vm_compute in ("<<<M3467>>>" ++ check (runes_of_ascii "
+	} packet
+    a1
+    {
 
-  root 
+    @tag(
+1)	Logon
+
+@lengthOf( options1
+)
+`{ , }`
+,
+    @calculatedFrom(
+	""abc"") 
+/// triple
+		f32a// " ++ [27880; 37322]%N ++ runes_of_ascii "
+    {	leftPad {// trailing space 
+      o
+matchKey ``	, }
+	,
+
+    int32 
+int 
+	    // c
+	// @lengthOf(
+    ``,
+
+char[  007 ]
+zchar
+	@lengthOf( Z9_)
+`tab	here`
+
+    ,char[  1
+    ]
+	falsey
+
+    ,},
+
+    repeat int16  Z9_ 
+, match zchar
+as zchar 
+{""packet"":x_y_z,  [ 3 
+
+// " ++ [128512]%N ++ runes_of_ascii " emoji
+,
+
+""CRC32""
+    ,	0
+
+, ""CRC32"" //
+
+,
+0123456789
+]  :
+
+    len
+,
+
+[ 
+0
+
+, 4294967296] : Packet
+
+, [
+65535
+    ]
+:
+    options1
+
+[
+	10 ]	//	t
+  : u128
+    ,
+	}
+
+,  // packet A { u8 x, }
+}")).
+Eval vm_compute in ("<<<M1927>>>" ++ check (runes_of_ascii "  packet
+    Pad  { char[	007
+	] string_
+    ,	// @lengthOf(
+		@lengthOf( zchar )
+
+    string
+    rootA
+
+    ,
+    @lengthOf( T )  char	trueish @lengthOf(zchar	)`line1
+line2`
+,
+repeat 
+f64
+
+    calculatedFrom ,
+@calculatedFrom(
+
+""it's"") leftPad
+
+    `it's` ,
+stringy {
+	int8 Packet	@lengthOf(  metadata  )	`tab	here`, A
+
+,
+	match charz  as uint8x{	3 :
+
+    MetaDataX ,
+1:
+//	t
+    charz
+	""a	b"" 
+: 
+//x
+msg_type,
+	//x
+[
+	0 
+,
+10
+,""// no comment""
+,
+
+""\" ++ [233]%N ++ runes_of_ascii """
+
+    ]
+	: A
+
+    ,	// @lengthOf(
+""\n"" :
+trueish
+,
+
+    } ,
+
+    }, @calculatedFrom(	""a\\"" )	char[
+
+    7
+
+]u
+
+@calculatedFrom( ""a\\""
+
+)  , 
+    //	t
+@tag(
+    7  )
+o{
+As
+`it's`,}	,  } packet
+
+    u
+
+{
+    }
+	packet
+
+    stringy {
+@tag( 0123456789	) string
+
+    pack	@lengthOf(
+
+    Pad ) ,}")).
+Eval vm_compute in ("<<<M2017>>>" ++ check (runes_of_ascii "options
+
+{
+    LittleEndian
+=
+
+false
+    ;  StringPrefixLenType=
+
+    u16	; ArrayPrefixLenType
+=  u32
+    ;}
+
 packet
-    P	{ u8 s_u8
+
+Order{uint8
+x
+, repeat	string  venue ,
+    } packet
+
+    Heartbeat {
+    i64
+    count,
+	zchar[ 1
+] Qty
+, repeat
+InX29  {  InSeqno26{
+int64
+f1
 
 , 
-repeat
+char[ 
+5 ]  Acct	,Order	,
 
-    u8 r_u8 ,	u16 b_len
-    ,  } ")).
-Eval vm_compute in ("<<<M3632>>>" ++ check (runes_of_ascii "  packet A { match
-k
+    } ,
 
-    as
+    repeat
+	InSide285 {
+	repeat 
+Order	,	char[10 ]
 
-n{	[1  ,	22, 007
+Px
+,  zchar[9 ]
+
+OrderId
 ,
 
-4
-    ]
-: B 2	: 
-C
+    }	,
+    char[]
+	venue,	Order 
+,}
+    ,
+@rightPad
+('\x00'
+)
+	char[	4]	clOrdID 
+,  } root
+
+packet
+Party
+{zchar[
+    3  ]f1
+	,
+    u32
+clOrdID ,
+u32
+    Px @lengthOf(  Body
+
+) , 
+match
+
+    clOrdID
+    as 
+Body {
+[  180 , 64 
+]
+
+: Heartbeat
+    ,11 :
+    Order
+    ,  },u32 Side2	@calculatedFrom( 
+""CR\
+C32""
+
+) ,
 }
-, }")).
-Eval vm_compute in ("<<<M3881>>>" ++ check (runes_of_ascii "packet A {
-    match k as n {
-        [""a"", 22] : B,
-        2 : C,
+")).
+Eval vm_compute in ("<<<M333>>>" ++ check (runes_of_ascii "// a // b
+packet matchKey{
+@rightPad( // c
+' ' // trailing space 
+)
+@tag(007) @lengthOf( float )
+repeat	packetx ,
+    // @lengthOf(
+    @calculatedFrom(""a\""b"" )/// triple
+@tag(
+    255 )@tag( 00 )
+    Pad
+    @calculatedFrom(
+""" ++ [28040; 24687]%N ++ runes_of_ascii """ ) `{ , }` , } root
+packet
+string_
+    { repeat Logon
+//
+//x
+{ match Z9_ as float {
+""packet""
+: packetx
+    , [
+""CRC32"" , 42 // a // b
+,	00
+    // `tick` ""quote"" 'q'
+    , ""packet"" //
+] : Foo, """ ++ [28040; 24687]%N ++ runes_of_ascii """ : BodyLength , [
+""CRC32""] : x_y_z	,
+    00 :
+    packetx, 7 : rootA , } ,
+}
+, repeat
+    // c
+    metadata { u16 Logon `
+` ,
+    matchKey @calculatedFrom(
+"""" //	t
+) , repeat// c
+char[]leftPad,
+} , }
+")).
+Eval vm_compute in ("<<<M153>>>" ++ check (runes_of_ascii "packet  BodyLength { @rightPad // packet A { u8 x, }
+()
+i32 packetx
+@lengthOf( leftPad) ,  @lengthOf( MetaDataX
+    ) leftPad
+    ,
+    _x {
+match
+zchar as zchar {
+    [ // `tick` ""quote"" 'q'
+""a\\"" ]
+: crc """ ++ [28040; 24687]%N ++ runes_of_ascii """ :
+Foo ,  1 : trueish ,	42 : rootA , [ 4294967296
+// @lengthOf(
+// `tick` ""quote"" 'q'
+]
+    //	t
+    :
+    float
+    // " ++ [128512]%N ++ runes_of_ascii " emoji
+    ""a\\"": Foo ,}  ,	repeat
+float
+    leftPad, uint8x i8i8 ,char[ 255  ]As// trailing space 
+,	} ,  char[
+    // " ++ [27880; 37322]%N ++ runes_of_ascii "
+    4294967296
+] uint8x`u8 x,` , @leftPad ( )
+float32
+body `two words` , }
+")).
+Eval vm_compute in ("<<<M211>>>" ++ check (runes_of_ascii "packet leftPad
+    {  BodyLength
+{ // a // b
+rootA {
+char[ 00]
+leftPad,
+    // trailing space 
+    tag // " ++ [27880; 37322]%N ++ runes_of_ascii "
+@calculatedFrom( ""abc""
+    // " ++ [128512]%N ++ runes_of_ascii " emoji
+    ) , char[	42 ] // c
+len ,
+string MetaDataX  ,}, match Z9_ as A { ""1""  : x, ""packet"" // trailing space 
+: lengthOf	} , i64
+    // trailing space 
+    chars @lengthOf(	msg_type
+    ) `
+`
+, },zchar[ 3 //
+]  u128
+    @lengthOf(//	t
+packetx
+) , @leftPad ( '\x00'
+)char[] chars @calculatedFrom( ""`tick`"" ) //
+, }
+")).
+Eval vm_compute in ("<<<M1418>>>" ++ check (runes_of_ascii "packet Frame {
+    u8 HK,
+    u8 BK,
+    u8 TK,
+    match HK as Hdr {
+        1 : HdrA,
+        2 : HdrB,
+    },
+    match BK as Body {
+        1 : BodyA,
+        2 : BodyB,
+    },
+    match TK as Trl {
+        1 : TrlA,
+    },
+}
+packet HdrA {
+    u8 a,
+}
+packet HdrB {
+    u16 b,
+}
+packet BodyA {
+    u32 c,
+}
+packet BodyB {
+    u64 d,
+}
+packet TrlA {
+    u8 e,
+}
+root packet Msg {
+    Frame,
+    u8 x,
+}
+")).
+Eval vm_compute in ("<<<M1556>>>" ++ check (runes_of_ascii "  root  packet  i64_{	}	options	{
+    chars
+	=char[
+
+    65535	] body 
+=
+
+    ""abc""
+
+    ;
+u=
+""`tick`""
+	trueish
+=
+    '0'
+}
+options {repeatCount = '\x00' 
+    // " ++ [128512]%N ++ runes_of_ascii " emoji
+
+  /// triple
+	;	f32a
+=
+    ""\n"" 
+int 
+    /// triple
+= 
+false	Pad=
+
+    ""1"" 
+repeatCount 
+=	""// no comment""  ;
+	}
+	root
+    packet
+string_  {
+    i32 As
+	`tab	here`,}	// c
+")).
+Eval vm_compute in ("<<<M158>>>" ++ check (runes_of_ascii "packet crc { // " ++ [128512]%N ++ runes_of_ascii " emoji
+int `" ++ [28040; 24687; 31867; 22411]%N ++ runes_of_ascii "`,  repeat Header	`doc` ,
+    @tag(
+    // " ++ [128512]%N ++ runes_of_ascii " emoji
+    65535 )
+    leftPad BodyLength
+    `// not a comment` // " ++ [128512]%N ++ runes_of_ascii " emoji
+, /// triple
+char[ 42 ]
+    roots	`` // a // b
+, } packet
+    uint8x
+    // `tick` ""quote"" 'q'
+    { @lengthOf(
+i8i8 )
+// trailing space 
+//	t
+Pad
+    MetaDataX//	t
+,}
+")).
+Eval vm_compute in ("<<<M1405>>>" ++ check (runes_of_ascii "packet 
+MDSnapshotZZ
+{
+	u8 a , 
+}  packet OrderACK {
+    u16
+
+    b
+
+    , }
+
+packet
+HTTPServerInfo{  string s  , 
+}	root 
+packet
+FIXMsg { u8	KType
+
+    ,  MDSnapshotZZ,repeat
+
+OrderACK
+,	match 
+KType  as Body {
+	1 : HTTPServerInfo
+,
+
+    2
+	:
+
+    OrderACK  ,
+	}
+
+    ,
+}
+")).
+Eval vm_compute in ("<<<M106>>>" ++ check (runes_of_ascii "// " ++ [27880; 37322]%N ++ runes_of_ascii "
+options //x
+{ msg_type
+//x
+//	t
+= '0'} packet _x { // `tick` ""quote"" 'q'
+@tag( 00  ) @tag(1)	char[] a1
+,
+// packet A { u8 x, }
+/// triple
+} packet float
+//	t
+// " ++ [128512]%N ++ runes_of_ascii " emoji
+{ }
+//	t
+// packet A { u8 x, }
+MetaData
+    // `tick` ""quote"" 'q'
+    Foo {
+}")).
+Eval vm_compute in ("<<<M1526>>>" ++ check (runes_of_ascii "packet B {
+    // c2
+    u8 a,
+    // c5
+}// c6a
+
+// c6b
+root packet P {
+    // c10a
+    // c10b
+    u8 K,// c13a
+    // c13b
+    u64 L @lengthOf(Body),
+    // c19
+    match K as Body {
+        // c24
+        1 : B,
+    },
+}// c31")).
+Eval vm_compute in ("<<<M494>>>" ++ check (runes_of_ascii "options
+{
+matchKey = 42/// triple
+x='0' ;
+// packet A { u8 x, }
+//
+charz
+=
+// packet A { u8 x, }
+// trailing space 
+true  ; } MetaData BodyLength
+{
+uint8
+pack,zchar[ char[]]float ,  float32 x_y_z `` ,u32
+_x,i16 body  , }
+")).
+Eval vm_compute in ("<<<M492>>>" ++ check (runes_of_ascii "options
+{
+matchKey = 42/// triple
+x='0' ;
+// packet A { u8 x, }
+//
+charz
+=
+// packet A { u8 x, }
+// trailing space 
+true  ; } MetaData BodyLength
+{
+uint8
+pack,zchar[ 1 1]float ,  float32 x_y_z `` ,u32
+_x,i16 body  , }
+")).
+Eval vm_compute in ("<<<M389>>>" ++ check (runes_of_ascii "{
+options
+matchKey = 42/// triple
+x='0' ;
+// packet A { u8 x, }
+//
+charz
+=
+// packet A { u8 x, }
+// trailing space 
+true  ; } MetaData BodyLength
+{
+uint8
+pack,zchar[ 1]float ,  float32 x_y_z `` ,u32
+_x,i16 body  , }
+")).
+Eval vm_compute in ("<<<M539>>>" ++ check (runes_of_ascii "options
+{
+matchKey = 42/// triple
+x='0' ;
+// packet A { u8 x, }
+//
+charz
+=
+// packet A { u8 x, }
+// trailing space 
+true  ; } MetaData BodyLength
+{
+uint8
+pack,zchar[ 1]float ,  float32 x_y_z `` ,u32
+i8,i16 body  , }
+")).
+Eval vm_compute in ("<<<M564>>>" ++ check (runes_of_ascii "options
+{
+matchKey = 42/// triple
+x='0' ;
+// packet A { u8 x, }
+//
+charz
+=
+// packet A { u8 x, }
+// trailing space 
+true  ; } MetaData BodyLength
+{
+uint8
+pack,zchar[ 1]float ,  float32 x_y_z `` ,u32
+_x,i16 body  ,")).
+Eval vm_compute in ("<<<M555>>>" ++ check (runes_of_ascii "options
+{
+matchKey = 42/// triple
+x='0' ;
+// packet A { u8 x, }
+//
+charz
+=
+// packet A { u8 x, }
+// trailing space 
+true  ; } MetaData BodyLength
+{
+uint8
+pack,zchar[ 1]float ,  float32 x_y_z `` ,u32
+_x,i16")).
+Eval vm_compute in ("<<<M566>>>" ++ check (runes_of_ascii "options
+{
+matchKey = 42/// triple
+x='0' ;
+// packet A { u8 x, }
+//
+charz
+=
+// packet A { u8 x, }
+// trailing space 
+true  ; } MetaData BodyLength
+{
+uint8
+pack,zchar[ 1]float ,  float32 x_")).
+Eval vm_compute in ("<<<M693>>>" ++ check (runes_of_ascii "// c
+packet i64_ {	char[] calculatedFrom , } packet
+trueish  {@calculatedFrom(
+""a\\"" ) o { i32 falsey@lengthOf( uint8x ),
+} , } // `tick` ""quote"" 'q'
+options { {// c
+Z9_ = ' '//
+}
+")).
+Eval vm_compute in ("<<<M515>>>" ++ check (runes_of_ascii "options
+{
+matchKey = 42/// triple
+x='0' ;
+// packet A { u8 x, }
+//
+charz
+=
+// packet A { u8 x, }
+// trailing space 
+true  ; } MetaData BodyLength
+{
+uint8
+pack,zchar[ 1]float ,")).
+Eval vm_compute in ("<<<M700>>>" ++ check (runes_of_ascii "// c
+packet i64_ {	char[] calculatedFrom , } packet
+trueish  {true
+""a\\"" ) o { i32 falsey@lengthOf( uint8x ),
+} , } // `tick` ""quote"" 'q'
+options {// c
+Z9_ = ' '//
+}
+")).
+Eval vm_compute in ("<<<M480>>>" ++ check (runes_of_ascii "options
+{
+matchKey = 42/// triple
+x='0' ;
+// packet A { u8 x, }
+//
+charz
+=
+// packet A { u8 x, }
+// trailing space 
+true  ; } MetaData BodyLength
+{
+uint8")).
+Eval vm_compute in ("<<<M2039>>>" ++ check (runes_of_ascii "
+options
+    {
+	u
+	=""a	b""  ;
+charz
+
+    =
+true
+	;
+
+matchKey
+= 	 //x
+  0123456789 u8x=
+char[]
+        // trailing space 
+Packet= false
+	; }")).
+Eval vm_compute in ("<<<M120>>>" ++ check (runes_of_ascii "root
+packet Header
+    // packet A { u8 x, }
+    { // " ++ [27880; 37322]%N ++ runes_of_ascii "
+@lengthOf(
+rootA // a // b
+) int8 Foo//
+@lengthOf(	uint8x)`tab	here`
+,}
+")).
+Eval vm_compute in ("<<<M588>>>" ++ check (runes_of_ascii "MetaData MetaData
+    // trailing space 
+    matchKey
+{ u64 chars // a // b
+,char[] lengthOf `// not a comment`
+    , //	t
+}")).
+Eval vm_compute in ("<<<M1607>>>" ++ check (runes_of_ascii "
+
+  packet
+calculatedFrom
+{ @tag(
+4294967296 )
+    u msg_type, 
+char[3
+	]
+crc
+	@lengthOf(	len
+	) `u8 x,` 	 // c
+	,
+} ")).
+Eval vm_compute in ("<<<M651>>>" ++ check (runes_of_ascii "MetaData
+    // trailing space 
+    matchKey
+{ u64 chars // a // b
+,char[] lengthOf `// not a comment`
+   ~ , //	t
+}")).
+Eval vm_compute in ("<<<M241>>>" ++ check (runes_of_ascii "packet Pad {}packet
+    options1{// trailing space 
+}
+    // @lengthOf(
+    root
+packet
+crc
+{
+    repeat crc len , }")).
+Eval vm_compute in ("<<<M1934>>>" ++ check (runes_of_ascii "options {
+    LittleEndian = true;
+}
+
+root packet P {
+    u16 a,
+    u32 Sum @calculatedFrom(""CR\
+        C32""),
+}")).
+Eval vm_compute in ("<<<M1672>>>" ++ check (runes_of_ascii "packet	o { 
+    // c
+
+@tag(
+
+42
+
+) repeat
+
+x
+{
+
+    char[
+    0123456789
+    ] i64_ , }  ,} 
+options
+	{ 
+} ")).
+Eval vm_compute in ("<<<M1252>>>" ++ check (runes_of_ascii "
+// c
+packet calculatedFrom { @tag( 4294967296 ) u msg_type , char[ 3 ] crc @lengthOf( len ) `u8 x,` , }")).
+Eval vm_compute in ("<<<M1273>>>" ++ check (runes_of_ascii "packet calculatedFrom { @tag( 4294967296 ) u msg_type , char[ 3 // c
+] crc @lengthOf( len ) `u8 x,` , }")).
+Eval vm_compute in ("<<<M1668>>>" ++ check (runes_of_ascii "packet A {
+    Inner {
+        match k as n {
+            [1, 22, 007, 4, 5] : B,
+        },
     },
 }")).
-Eval vm_compute in ("<<<M947>>>" ++ check (runes_of_ascii "
-packet Packet
-    // c
-    { repeat Pad
-    leftPad
-,
-    //	t
-    } 	 ")).
-Eval vm_compute in ("<<<M3414>>>" ++ check (runes_of_ascii "MetaData _x { zchar[ 4294967296 ] lengthOf `// not a comment` , }
-// c
-")).
-Eval vm_compute in ("<<<M3409>>>" ++ check (runes_of_ascii "MetaData _x { zchar[ 4294967296 ] lengthOf `// not a comment` // c
-, }")).
-Eval vm_compute in ("<<<M2182>>>" ++ check (runes_of_ascii "root
-    // `tick` ""quote"" 'q'
-    packet As { trueish Packet , , }
-")).
-Eval vm_compute in ("<<<M3378>>>" ++ check (runes_of_ascii "// top
-packet
-    // c0
-lengthOf
-    // c1
-{
-    // c2
-}
-    // c3
-")).
-Eval vm_compute in ("<<<M919>>>" ++ check (runes_of_ascii "MetaData matchKey{} MetaData
-    rootA{//	t
-falsey stringy
-,
-}
-")).
-Eval vm_compute in ("<<<M2867>>>" ++ check (runes_of_ascii "packet A {
+Eval vm_compute in ("<<<M904>>>" ++ check (runes_of_ascii "packet A {
   match k as n {
-    [1, ""bb""] : B,
+    [1, 22, 007, 4, 5, 66, 7, 8, 9, 10, 11, 12] : B
     2 : C
   },
 }")).
-Eval vm_compute in ("<<<M3024>>>" ++ check (runes_of_ascii "MetaData M {
-    u8 x `a
-    b
-  c`,
-    T t `a
-    b
-  c`,
+Eval vm_compute in ("<<<M1151>>>" ++ check (runes_of_ascii "packet Logon { @tag( 42 ) @rightPad ( ' ' ) @leftPad
+// c
+( ) repeat trueish { string T , } , }")).
+Eval vm_compute in ("<<<M385>>>" ++ check (runes_of_ascii "root packet SimpleMessage {
+    uint16 MsgType `" ++ [28040; 24687; 31867; 22411]%N ++ runes_of_ascii "`,
+    string JsonBody `Json" ++ [23383; 31526; 20018; 28040; 24687; 20307]%N ++ runes_of_ascii "`,
 }")).
-Eval vm_compute in ("<<<M3767>>>" ++ check (runes_of_ascii "packet msg_type {
-    char[00] x_y_z @lengthOf(msg_type),
+Eval vm_compute in ("<<<M877>>>" ++ check (runes_of_ascii "packet A {
+  match k as n {
+    [1, 22, 007, 4, 5, 66, 7, 8, 9, 10] : B,
+    2 : C
+  },
 }")).
-Eval vm_compute in ("<<<M2858>>>" ++ check (runes_of_ascii "packet A {
+Eval vm_compute in ("<<<M859>>>" ++ check (runes_of_ascii "packet A {
+  match k as n {
+    [1, 22, ""c c"", 4, 5, ""f"", 7, 8] : B,
+    2 : C
+  },
+}")).
+Eval vm_compute in ("<<<M815>>>" ++ check (runes_of_ascii "packet A {
+  match k as n {
+    [""a"", ""bb"", ""c c"", ""d"", ""e""] : B
+    2 : C
+  },
+}")).
+Eval vm_compute in ("<<<M1234>>>" ++ check (runes_of_ascii "packet o { @tag( 42 ) repeat x { char[ 0123456789 ] i64_ , // c
+} , } options { }")).
+Eval vm_compute in ("<<<M833>>>" ++ check (runes_of_ascii "packet A {
+  match k as n {
+    [1, 22, ""c c"", 4, 5, ""f""] : B,
+    2 : C
+  },
+}")).
+Eval vm_compute in ("<<<M825>>>" ++ check (runes_of_ascii "packet A {
+  match k as n {
+    [1, 22, 007, 4, 5, 66] : B,
+    2 : C
+  },
+}")).
+Eval vm_compute in ("<<<M1483>>>" ++ check (runes_of_ascii "
+packet A
+{
+
+match	k
+    as
+n
+{ [	1
+,  ""bb"" 
+] :
+B
+    , 2 :
+
+C},}
+
+")).
+Eval vm_compute in ("<<<M1316>>>" ++ check (runes_of_ascii "MetaData _x { zchar[
+// c
+4294967296 ] lengthOf `// not a comment` , }")).
+Eval vm_compute in ("<<<M642>>>" ++ check (runes_of_ascii "MetaData
+    // trailing space 
+    matchKey
+{ u64 chars // a // ")).
+Eval vm_compute in ("<<<M112>>>" ++ check (runes_of_ascii "options { calculatedFrom  =// `tick` ""quote"" 'q'
+""packet""; }
+")).
+Eval vm_compute in ("<<<M772>>>" ++ check (runes_of_ascii "packet A {
   match k as n {
     [1] : B,
     2 : C
   },
 }")).
-Eval vm_compute in ("<<<M1899>>>" ++ check (runes_of_ascii "
-'\x00'	As { @calculatedFrom(//x
-""{,}""	)lengthOf , } 	 ")).
-Eval vm_compute in ("<<<M3178>>>" ++ check (runes_of_ascii "packet A { repeat // a
- B // b
- b // c
- `d` // e
- , }")).
-Eval vm_compute in ("<<<M1995>>>" ++ check (runes_of_ascii "root
-packet crc
-    { f32a @calculatedFrom( """ ++ [233]%N ++ runes_of_ascii "t" ++ [233]%N ++ runes_of_ascii """")).
-Eval vm_compute in ("<<<M3625>>>" ++ check (runes_of_ascii "options {
-    float = ' ';
-    _x = 4294967296;
-}")).
-Eval vm_compute in ("<<<M1771>>>" ++ check (runes_of_ascii "options " ++ [65279]%N ++ runes_of_ascii " { }options {  } // `tick` ""quote"" 'q'")).
-Eval vm_compute in ("<<<M1780>>>" ++ check (runes_of_ascii "opt\ions { }options {  } // `tick` ""quote"" 'q'")).
-Eval vm_compute in ("<<<M1742>>>" ++ check (runes_of_ascii "options  }options {  } // `tick` ""quote"" 'q'")).
-Eval vm_compute in ("<<<M3180>>>" ++ check (runes_of_ascii "packet A { char[ // a
- 3 // b
- ] // c
- x, }")).
-Eval vm_compute in ("<<<M2848>>>" ++ check (runes_of_ascii "char[] : root uint64 packet i64 float32 3")).
-Eval vm_compute in ("<<<M2758>>>" ++ check (runes_of_ascii "int32 char[] i32 = float32 float32 char[")).
-Eval vm_compute in ("<<<M2137>>>" ++ check (runes_of_ascii "MetaData x
-#{// " ++ [128512]%N ++ runes_of_ascii " emoji
-i16 stringy , }")).
-Eval vm_compute in ("<<<M2652>>>" ++ check (runes_of_ascii "MetaData M { match k as n { 1 : B }, }")).
-Eval vm_compute in ("<<<M2818>>>" ++ check ([65533; 65533; 28; 65533]%N ++ runes_of_ascii "9i%" ++ [65533]%N ++ runes_of_ascii "V" ++ [65533]%N ++ runes_of_ascii "Q" ++ [65533; 65533; 65533]%N ++ runes_of_ascii "[" ++ [65533; 65533; 65533]%N ++ runes_of_ascii "Z" ++ [65533; 65533; 65533]%N ++ runes_of_ascii ">F" ++ [65533]%N ++ runes_of_ascii "|" ++ [65533; 65533; 65533; 65533; 65533]%N ++ runes_of_ascii "f" ++ [9700; 4; 65533; 65533; 65533]%N)).
-Eval vm_compute in ("<<<M2749>>>" ++ check (runes_of_ascii "uint16 """ ++ [128512]%N ++ runes_of_ascii """ uint16 float32 true root")).
-Eval vm_compute in ("<<<M2690>>>" ++ check (runes_of_ascii "[ : : @lengthOf( root true as 255")).
-Eval vm_compute in ("<<<M1646>>>" ++ check (runes_of_ascii "root packet /// triple
-rootA {")).
-Eval vm_compute in ("<<<M3078>>>" ++ check (runes_of_ascii "packet A {
- u8 x `d" ++ [133]%N ++ runes_of_ascii "`, // c" ++ [133]%N ++ runes_of_ascii "
-}")).
-Eval vm_compute in ("<<<M3656>>>" ++ check (runes_of_ascii "MetaData a1 {
-    // a // b
-}")).
-Eval vm_compute in ("<<<M1799>>>" ++ check (runes_of_ascii "packet
-    Pad // a // b
-{")).
-Eval vm_compute in ("<<<M2090>>>" ++ check (runes_of_ascii "MetaData A { u64 pack, }# ")).
-Eval vm_compute in ("<<<M2595>>>" ++ check (runes_of_ascii "packet A { B { u8 x, }, }")).
-Eval vm_compute in ("<<<M2594>>>" ++ check (runes_of_ascii "packet A { B { u8 x, } }")).
-Eval vm_compute in ("<<<M2071>>>" ++ check (runes_of_ascii "MetaData A { u64 pack }")).
-Eval vm_compute in ("<<<M2079>>>" ++ check (runes_of_ascii "MetaData A { u64 pack,")).
-Eval vm_compute in ("<<<M3711>>>" ++ check (runes_of_ascii "  packet stringy
-{ }
+Eval vm_compute in ("<<<M1937>>>" ++ check (runes_of_ascii "  MetaData
+zchar
+    {	// c
+
+zchar[
+	3
+] Pad ,}
 ")).
-Eval vm_compute in ("<<<M2537>>>" ++ check (runes_of_ascii ": , ; = ( ) [ ] { }")).
-Eval vm_compute in ("<<<M997>>>" ++ check (runes_of_ascii "options {a1	=1 ;}
+Eval vm_compute in ("<<<M939>>>" ++ check (runes_of_ascii "root packet A {
+    u8 x `a
+    b
+  c`,
+}")).
+Eval vm_compute in ("<<<M1809>>>" ++ check (runes_of_ascii "root packet A {
+    u8 x `
+        `,
+}")).
+Eval vm_compute in ("<<<M927>>>" ++ check (runes_of_ascii "root packet A {
+    u8 x `a
+b`,
+}")).
+Eval vm_compute in ("<<<M1692>>>" ++ check (runes_of_ascii "packet
+    // c
+  lengthOf  {}")).
+Eval vm_compute in ("<<<M1891>>>" ++ check (runes_of_ascii "
+
+  // c x
+      packet A{ }
 ")).
-Eval vm_compute in ("<<<M3106>>>" ++ check (runes_of_ascii "packet A {
+Eval vm_compute in ("<<<M415>>>" ++ check (runes_of_ascii "options
+{
+matchKey = 42")).
+Eval vm_compute in ("<<<M69>>>" ++ check (runes_of_ascii "options	{ i64_ =00 }
+")).
+Eval vm_compute in ("<<<M985>>>" ++ check (runes_of_ascii "packet A {
 }
-// c" ++ [8239]%N)).
-Eval vm_compute in ("<<<M2682>>>" ++ check (runes_of_ascii "// only a comment")).
-Eval vm_compute in ("<<<M2638>>>" ++ check (runes_of_ascii "root options { }")).
-Eval vm_compute in ("<<<M2567>>>" ++ check (runes_of_ascii "packet A { x }")).
-Eval vm_compute in ("<<<M4038>>>" ++ check (runes_of_ascii "packet o {
+// c" ++ [160]%N)).
+Eval vm_compute in ("<<<M1492>>>" ++ check (runes_of_ascii "MetaData charz {
 }")).
-Eval vm_compute in ("<<<M2478>>>" ++ check (runes_of_ascii "@rightPad")).
-Eval vm_compute in ("<<<M2709>>>" ++ check (runes_of_ascii ") char[")).
-Eval vm_compute in ("<<<M2428>>>" ++ check (runes_of_ascii "chars")).
-Eval vm_compute in ("<<<M3105>>>" ++ check (runes_of_ascii "// c" ++ [8239]%N)).
-Eval vm_compute in ("<<<M2543>>>" ++ check (runes_of_ascii "a
-b")).
-Eval vm_compute in ("<<<M2548>>>" ++ check (runes_of_ascii "a" ++ [160]%N ++ runes_of_ascii "b")).
-Eval vm_compute in ("<<<M18>>>" ++ check (runes_of_ascii "
+Eval vm_compute in ("<<<M1070>>>" ++ check (runes_of_ascii "packet A {
+}
+
+
 ")).
+Eval vm_compute in ("<<<M974>>>" ++ check (runes_of_ascii "// c ")).
+Eval vm_compute in ("<<<M44>>>" ++ check (@nil rune)).
